@@ -13,3 +13,1950 @@ Proof. intros i. unfold commit_tail. vm_compute (commit_pos_record <? commit_pos
 Lemma apply_ops_order : forall i,
   apply_ops i = [ORecord i; OFs (FRemove (DFinal i) FFlag)].
 Proof. intros i. unfold apply_ops. vm_compute (engine_pos_save_raft_state <? engine_pos_on_snapshot_saved). reflexivity. Qed.
+
+(* ---------------------------------------------------------------------- *)
+(* names *)
+
+Lemma dname_eqb_eq : forall a b, dname_eqb a b = true <-> a = b.
+Proof.
+  destruct a, b; simpl; split; intro H; try discriminate; try (apply N.eqb_eq in H; subst; reflexivity);
+    try (inversion H; subst; apply N.eqb_refl).
+Qed.
+
+Lemma fname_eqb_eq : forall a b, fname_eqb a b = true <-> a = b.
+Proof.
+  destruct a, b; simpl; split; intro H; try discriminate; try reflexivity;
+    try (apply N.eqb_eq in H; subst; reflexivity);
+    try (inversion H; subst; apply N.eqb_refl).
+Qed.
+
+Lemma d_is_eq : forall o n, d_is o n = true <-> o = Some n.
+Proof.
+  destruct o as [m|]; simpl; intros n.
+  - rewrite dname_eqb_eq. split; intro H; [subst; reflexivity | inversion H; reflexivity].
+  - split; discriminate.
+Qed.
+
+Lemma f_is_eq : forall o n, f_is o n = true <-> o = Some n.
+Proof.
+  destruct o as [m|]; simpl; intros n.
+  - rewrite fname_eqb_eq. split; intro H; [subst; reflexivity | inversion H; reflexivity].
+  - split; discriminate.
+Qed.
+
+Lemma d_is_neq : forall o n, d_is o n = false <-> o <> Some n.
+Proof.
+  intros o n. destruct (d_is o n) eqn:E.
+  - apply d_is_eq in E. split; [discriminate | intro H; contradiction].
+  - split; [intros _ H; apply d_is_eq in H; congruence | reflexivity].
+Qed.
+
+Lemma f_is_neq : forall o n, f_is o n = false <-> o <> Some n.
+Proof.
+  intros o n. destruct (f_is o n) eqn:E.
+  - apply f_is_eq in E. split; [discriminate | intro H; contradiction].
+  - split; [intros _ H; apply f_is_eq in H; congruence | reflexivity].
+Qed.
+
+(* ---------------------------------------------------------------------- *)
+(* the invariant *)
+
+(* a durable file name is the volatile one, or the node is unbound, or the
+   node is a shrunk file that was renamed over the snapshot file *)
+Definition fK (f : fobj) : Prop :=
+  forall n, f_dn f = Some n ->
+    f_vn f = None \/ f_vn f = Some n \/ exists i, n = FShrunk i /\ f_vn f = Some (FSnap i).
+
+Definition tmp_of (n : dname) (i : N) : Prop := n = DGen i \/ n = DRecv i.
+
+Definition dK (o : dobj) : Prop :=
+  forall n, d_dn o = Some n ->
+    d_vn o = None \/ d_vn o = Some n \/ exists i, tmp_of n i /\ d_vn o = Some (DFinal i).
+
+(* the files of a (volatile or durable) final directory of index i *)
+Definition fgood (i : N) (l : list fobj) : Prop :=
+  Exists (fun f => f_dn f = Some (FSnap i)) l /\
+  Exists (fun f => f_vn f = Some (FSnap i)) l /\
+  Forall (fun f => (f_vn f = Some (FSnap i) \/ f_dn f = Some (FSnap i)) -> valid_snap (f_dd f) = true) l /\
+  Forall (fun f => ((f_vn f = Some FFlag \/ f_dn f = Some FFlag) -> f_dd f = flag_data i) /\
+                   (f_vn f = Some FFlag -> f_vd f = flag_data i)) l.
+
+Definition dinv (o : dobj) : Prop :=
+  dK o /\ Forall fK (d_files o) /\
+  forall i, (d_vn o = Some (DFinal i) \/ d_dn o = Some (DFinal i)) -> fgood i (d_files o).
+
+Definition recorded_dir (s : state) : Prop :=
+  st_rec s <> 0 ->
+  Exists (fun o => d_vn o = Some (DFinal (st_rec s)) /\ d_dn o = Some (DFinal (st_rec s))) (st_fs s).
+
+Definition Inv (s : state) : Prop := Forall dinv (st_fs s) /\ recorded_dir s.
+
+(* what the programs respect (proved for the programs below): *)
+Definition file_ok (d : dname) (f : fname) : Prop :=
+  match d with DFinal i => f = FShrunk i | _ => True end.
+
+Definition allowed (s : state) (o : op) : Prop :=
+  match o with
+  | OFs (FMkdir d) => is_tmp d = true
+  | OFs FSyncRoot => True
+  | OFs (FCreate d f) => file_ok d f
+  | OFs (FWrite d f _) => file_ok d f
+  | OFs (FWriteAt d f _ _) => file_ok d f
+  | OFs (FSyncFile d f) => file_ok d f
+  | OFs (FSyncDir d) => True
+  | OFs (FRenameDir a b) =>
+      exists i, i <> 0 /\ tmp_of a i /\ b = DFinal i /\ has_dir b (st_fs s) = false /\
+                Forall (fun o => d_vn o = Some a -> fgood i (d_files o)) (st_fs s)
+  | OFs (FRenameFile d a b) =>
+      exists i, d = DFinal i /\ a = FShrunk i /\ b = FSnap i /\
+        Forall (fun o => d_vn o = Some d ->
+                  Exists (fun f => f_vn f = Some a) (d_files o) /\
+                  Forall (fun f => f_vn f = Some a -> valid_snap (f_dd f) = true) (d_files o)) (st_fs s)
+  | OFs (FRemove d f) => match d with DFinal _ => f = FFlag | _ => True end
+  | OFs (FRemoveAll d) => match d with DFinal j => j <> st_rec s | _ => True end
+  | ORecord i =>
+      i <> 0 /\ Exists (fun o => d_vn o = Some (DFinal i) /\ d_dn o = Some (DFinal i)) (st_fs s)
+  | OCrash => True
+  end.
+
+(* ---------------------------------------------------------------------- *)
+(* list helpers *)
+
+Lemma Forall_map_iff : forall {A B} (P : B -> Prop) (g : A -> B) l,
+  Forall P (map g l) <-> Forall (fun x => P (g x)) l.
+Proof. intros. rewrite !Forall_forall. split; intros H x Hx.
+  - apply H. apply in_map. exact Hx.
+  - apply in_map_iff in Hx. destruct Hx as [y [<- Hy]]. apply H. exact Hy. Qed.
+
+Lemma Forall_filter_w : forall {A} (P : A -> Prop) p l, Forall P l -> Forall P (filter p l).
+Proof. intros. rewrite Forall_forall in *. intros x Hx. apply filter_In in Hx. apply H. tauto. Qed.
+
+Lemma Exists_map_iff : forall {A B} (P : B -> Prop) (g : A -> B) l,
+  Exists P (map g l) <-> Exists (fun x => P (g x)) l.
+Proof. intros. rewrite !Exists_exists. split.
+  - intros [y [Hy Py]]. apply in_map_iff in Hy. destruct Hy as [x [<- Hx]]. eauto.
+  - intros [x [Hx Px]]. exists (g x). split; [apply in_map; exact Hx | exact Px]. Qed.
+
+Lemma Exists_filter_s : forall {A} (P : A -> Prop) p l,
+  Exists (fun x => P x /\ p x = true) l -> Exists P (filter p l).
+Proof. intros. rewrite Exists_exists in *. destruct H as [x [Hx [Px Hp]]]. exists x. split; [apply filter_In; tauto | exact Px]. Qed.
+
+Lemma Forall_impl_in : forall {A} (P Q : A -> Prop) l,
+  Forall P l -> (forall x, In x l -> P x -> Q x) -> Forall Q l.
+Proof. intros. rewrite Forall_forall in *. auto. Qed.
+
+(* ---------------------------------------------------------------------- *)
+(* inside one directory *)
+
+Definition cF (i : N) (f : fobj) : Prop :=
+  (f_vn f = Some (FSnap i) \/ f_dn f = Some (FSnap i)) -> valid_snap (f_dd f) = true.
+Definition cG (i : N) (f : fobj) : Prop :=
+  ((f_vn f = Some FFlag \/ f_dn f = Some FFlag) -> f_dd f = flag_data i) /\
+  (f_vn f = Some FFlag -> f_vd f = flag_data i).
+
+Lemma fgood_unfold : forall i l, fgood i l <->
+  Exists (fun f => f_dn f = Some (FSnap i)) l /\ Exists (fun f => f_vn f = Some (FSnap i)) l /\
+  Forall (cF i) l /\ Forall (cG i) l.
+Proof. reflexivity. Qed.
+
+Lemma fgood_map : forall i h l,
+  fgood i l ->
+  (forall f, In f l -> f_dn f = Some (FSnap i) -> f_dn (h f) = Some (FSnap i)) ->
+  (forall f, In f l -> f_vn f = Some (FSnap i) -> f_vn (h f) = Some (FSnap i)) ->
+  (forall f, In f l -> cF i f -> cF i (h f)) ->
+  (forall f, In f l -> cG i f -> cG i (h f)) ->
+  fgood i (map h l).
+Proof.
+  intros i h l (Ed & Ev & F & G) H1 H2 H3 H4. rewrite fgood_unfold.
+  rewrite !Exists_map_iff, !Forall_map_iff. repeat split.
+  - rewrite Exists_exists in *. destruct Ed as [f [Hf P]]. exists f. auto.
+  - rewrite Exists_exists in *. destruct Ev as [f [Hf P]]. exists f. auto.
+  - eapply Forall_impl_in; [exact F | auto].
+  - eapply Forall_impl_in; [exact G | auto].
+Qed.
+
+Lemma fgood_filter_alive : forall i l, fgood i l -> fgood i (filter f_alive l).
+Proof.
+  intros i l (Ed & Ev & F & G). rewrite fgood_unfold. repeat split.
+  - apply Exists_filter_s. rewrite Exists_exists in *. destruct Ed as [f [Hf P]]. exists f. repeat split; auto.
+    unfold f_alive. rewrite P. simpl. apply orb_true_r.
+  - apply Exists_filter_s. rewrite Exists_exists in *. destruct Ev as [f [Hf P]]. exists f. repeat split; auto.
+    unfold f_alive. rewrite P. reflexivity.
+  - apply Forall_filter_w; exact F.
+  - apply Forall_filter_w; exact G.
+Qed.
+
+Lemma fgood_cons : forall i f l, fgood i l -> cF i f -> cG i f -> fgood i (f :: l).
+Proof.
+  intros i f l (Ed & Ev & F & G) HF HG. rewrite fgood_unfold. repeat split.
+  - apply Exists_cons_tl; exact Ed.
+  - apply Exists_cons_tl; exact Ev.
+  - constructor; assumption.
+  - constructor; assumption.
+Qed.
+
+Lemma fK_map : forall h l, Forall fK l -> (forall f, In f l -> fK f -> fK (h f)) -> Forall fK (map h l).
+Proof. intros. rewrite Forall_map_iff. eapply Forall_impl_in; eauto. Qed.
+
+Lemma fK_unbind : forall n f, fK f -> fK (f_unbind n f).
+Proof.
+  intros n f H. unfold f_unbind. destruct (f_is (f_vn f) n); [|exact H].
+  intros m Hm. left. reflexivity.
+Qed.
+
+(* -- unbind -- *)
+Lemma unbind_other_vn : forall n f m, m <> n -> f_vn f = Some m -> f_vn (f_unbind n f) = Some m.
+Proof.
+  intros n f m Hne Hv. unfold f_unbind. destruct (f_is (f_vn f) n) eqn:E; [|exact Hv].
+  apply f_is_eq in E. congruence.
+Qed.
+
+Lemma unbind_dn : forall n f, f_dn (f_unbind n f) = f_dn f.
+Proof. intros. unfold f_unbind. destruct (f_is (f_vn f) n); reflexivity. Qed.
+
+Lemma unbind_dd : forall n f, f_dd (f_unbind n f) = f_dd f.
+Proof. intros. unfold f_unbind. destruct (f_is (f_vn f) n); reflexivity. Qed.
+
+Lemma unbind_vn_cases : forall n f, f_vn (f_unbind n f) = None \/ f_vn (f_unbind n f) = f_vn f.
+Proof. intros. unfold f_unbind. destruct (f_is (f_vn f) n); simpl; auto. Qed.
+
+Lemma cF_unbind : forall i n f, cF i f -> cF i (f_unbind n f).
+Proof.
+  intros i n f H. unfold cF in *. rewrite unbind_dn, unbind_dd.
+  destruct (unbind_vn_cases n f) as [E|E]; rewrite E; intros [A|A]; try discriminate; auto.
+Qed.
+
+Lemma unbind_vd : forall n f, f_vd (f_unbind n f) = f_vd f.
+Proof. intros. unfold f_unbind. destruct (f_is (f_vn f) n); reflexivity. Qed.
+
+Lemma cG_unbind : forall i n f, cG i f -> cG i (f_unbind n f).
+Proof.
+  intros i n f [H1 H2]. unfold cG in *. rewrite unbind_dn, unbind_dd, unbind_vd.
+  destruct (unbind_vn_cases n f) as [E|E]; rewrite E; split.
+  - intros [A|A]; try discriminate; auto.
+  - discriminate.
+  - auto.
+  - auto.
+Qed.
+
+Lemma fgood_unbind : forall i n l, n <> FSnap i -> fgood i l -> fgood i (filter f_alive (map (f_unbind n) l)).
+Proof.
+  intros i n l Hn H. apply fgood_filter_alive. apply fgood_map; auto.
+  - intros f _ E. rewrite unbind_dn. exact E.
+  - intros f _ E. apply unbind_other_vn; auto.
+  - intros f _. apply cF_unbind.
+  - intros f _. apply cG_unbind.
+Qed.
+
+(* -- create -- *)
+Lemma fK_create : forall n l, Forall fK l -> Forall fK (fl_create n l).
+Proof.
+  intros n l H. unfold fl_create. constructor.
+  - intros m Hm. simpl in Hm. discriminate.
+  - apply Forall_filter_w. apply fK_map; auto. intros f _. apply fK_unbind.
+Qed.
+
+Lemma fgood_create : forall i j l, fgood i l -> fgood i (fl_create (FShrunk j) l).
+Proof.
+  intros i j l H. unfold fl_create. apply fgood_cons.
+  - apply fgood_unbind; [discriminate | exact H].
+  - intros [A|A]; simpl in A; discriminate.
+  - split; [intros [A|A]; simpl in A; discriminate | simpl; discriminate].
+Qed.
+
+(* -- write / writeat: only the volatile data changes -- *)
+Lemma fgood_vd : forall i j (w : data -> data) l,
+  fgood i l ->
+  fgood i (map (fun o => if f_is (f_vn o) (FShrunk j) then mkF (f_vn o) (f_dn o) (w (f_vd o)) (f_dd o) else o) l).
+Proof.
+  intros i j w l H. apply fgood_map; auto; intros f _; destruct (f_is (f_vn f) (FShrunk j)) eqn:E; simpl; auto.
+  apply f_is_eq in E. intros [C1 C2]. split; simpl; auto. intros X. congruence.
+Qed.
+
+Lemma fK_vd : forall (p : fobj -> bool) (w : data -> data) l,
+  Forall fK l -> Forall fK (map (fun o => if p o then mkF (f_vn o) (f_dn o) (w (f_vd o)) (f_dd o) else o) l).
+Proof. intros. apply fK_map; auto. intros f _ Hf. destruct (p f); auto. Qed.
+
+(* -- syncfile on a shrunk file -- *)
+Lemma fgood_syncfile : forall i j l, Forall fK l -> fgood i l -> fgood i (fl_syncfile (FShrunk j) l).
+Proof.
+  intros i j l K H. unfold fl_syncfile. apply fgood_map; auto.
+  - intros f _ E. destruct (f_is (f_vn f) (FShrunk j)); simpl; auto.
+  - intros f _ E. destruct (f_is (f_vn f) (FShrunk j)); simpl; auto.
+  - intros f Hf C. destruct (f_is (f_vn f) (FShrunk j)) eqn:E; auto.
+    apply f_is_eq in E. unfold cF. simpl. intros [A|A]; [congruence|].
+    rewrite Forall_forall in K. destruct (K f Hf _ A) as [B|[B|[k [B _]]]]; congruence.
+  - intros f Hf C. destruct (f_is (f_vn f) (FShrunk j)) eqn:E; auto.
+    apply f_is_eq in E. unfold cG. simpl. split; [|intros X; congruence]. intros [A|A]; [congruence|].
+    rewrite Forall_forall in K. destruct (K f Hf _ A) as [B|[B|[k [B _]]]]; congruence.
+Qed.
+
+Lemma fK_syncfile : forall n l, Forall fK l -> Forall fK (fl_syncfile n l).
+Proof. intros. apply fK_map; auto. intros f _ Hf. destruct (f_is (f_vn f) n); auto. Qed.
+
+(* -- syncdir -- *)
+Lemma fK_syncdir : forall l, Forall fK (fl_syncdir l).
+Proof.
+  intros l. unfold fl_syncdir. apply Forall_filter_w. rewrite Forall_map_iff. rewrite Forall_forall.
+  intros f _ n Hn. simpl in *. destruct (f_vn f); auto.
+Qed.
+
+Lemma fgood_syncdir : forall i l, fgood i l -> fgood i (fl_syncdir l).
+Proof.
+  intros i l (Ed & Ev & F & G). unfold fl_syncdir. apply fgood_filter_alive. rewrite fgood_unfold.
+  rewrite !Exists_map_iff, !Forall_map_iff. simpl. repeat split; auto.
+  - eapply Forall_impl_in; [exact F|]. intros f _ C. unfold cF in *. simpl. intros [A|A]; auto.
+  - eapply Forall_impl_in; [exact G|]. intros f _ [C1 C2]. unfold cG in *. simpl. split; auto. intros [A|A]; auto.
+Qed.
+
+(* -- remove flag -- *)
+Lemma fK_remove : forall n l, Forall fK l -> Forall fK (fl_remove n l).
+Proof. intros. unfold fl_remove. apply Forall_filter_w. apply fK_map; auto. intros f _. apply fK_unbind. Qed.
+
+Lemma fgood_remove_flag : forall i l, fgood i l -> fgood i (fl_remove FFlag l).
+Proof. intros. unfold fl_remove. apply fgood_unbind; [discriminate | assumption]. Qed.
+
+(* -- rename shrunk -> snap -- *)
+Lemma fK_rename : forall i l, Forall fK l -> Forall fK (fl_rename (FShrunk i) (FSnap i) l).
+Proof.
+  intros i l H. unfold fl_rename. apply Forall_filter_w. apply fK_map; auto.
+  intros f _ Hf. destruct (f_is (f_vn f) (FShrunk i)) eqn:E.
+  - apply f_is_eq in E. intros n Hn. simpl in *. destruct (Hf n Hn) as [B|[B|[k [_ B]]]]; try congruence.
+    right. right. exists i. split; [congruence | reflexivity].
+  - apply fK_unbind. exact Hf.
+Qed.
+
+Lemma fgood_rename : forall i l,
+  Forall fK l -> fgood i l ->
+  Exists (fun f => f_vn f = Some (FShrunk i)) l ->
+  Forall (fun f => f_vn f = Some (FShrunk i) -> valid_snap (f_dd f) = true) l ->
+  fgood i (fl_rename (FShrunk i) (FSnap i) l).
+Proof.
+  intros i l K (Ed & Ev & F & G) Ex Va. unfold fl_rename. apply fgood_filter_alive. rewrite fgood_unfold.
+  rewrite !Exists_map_iff, !Forall_map_iff. repeat split.
+  - rewrite Exists_exists in *. destruct Ed as [f [Hf P]]. exists f. split; auto.
+    destruct (f_is (f_vn f) (FShrunk i)); simpl; auto. rewrite unbind_dn. exact P.
+  - rewrite Exists_exists in *. destruct Ex as [f [Hf P]]. exists f. split; auto.
+    apply f_is_eq in P. rewrite P. reflexivity.
+  - rewrite Forall_forall in *. intros f Hf. destruct (f_is (f_vn f) (FShrunk i)) eqn:E.
+    + apply f_is_eq in E. unfold cF. simpl. intros _. apply Va; auto.
+    + apply cF_unbind. exact (F f Hf).
+  - rewrite Forall_forall in *. intros f Hf. destruct (f_is (f_vn f) (FShrunk i)) eqn:E.
+    + apply f_is_eq in E. unfold cG. simpl. split; [|discriminate]. intros [A|A]; [discriminate|].
+      destruct (K f Hf _ A) as [B|[B|[k [B _]]]]; congruence.
+    + apply cG_unbind. exact (G f Hf).
+Qed.
+
+(* -- crash -- *)
+Lemma fK_crash : forall l, Forall fK (fl_crash l).
+Proof.
+  intros l. unfold fl_crash. rewrite Forall_map_iff. rewrite Forall_forall. intros f _ n Hn. simpl in *. auto.
+Qed.
+
+Lemma fgood_crash : forall i l, fgood i l -> fgood i (fl_crash l).
+Proof.
+  intros i l (Ed & Ev & F & G). unfold fl_crash. rewrite fgood_unfold.
+  rewrite !Exists_map_iff, !Forall_map_iff. simpl.
+  assert (E : Exists (fun x => f_dn x = Some (FSnap i)) (filter (fun o => is_some (f_dn o)) l)).
+  { apply Exists_filter_s. rewrite Exists_exists in *. destruct Ed as [f [Hf P]]. exists f. rewrite P. auto. }
+  repeat split; auto.
+  - apply Forall_filter_w. eapply Forall_impl_in; [exact F|]. intros f _ C. unfold cF in *. simpl. intros [A|A]; auto.
+  - apply Forall_filter_w. eapply Forall_impl_in; [exact G|]. intros f _ [C1 C2]. unfold cG in *. simpl. split; auto. intros [A|A]; auto.
+Qed.
+
+(* ---------------------------------------------------------------------- *)
+(* the root directory *)
+
+Lemma dinv_final_index : forall o d i,
+  dK o -> d_vn o = Some d -> (d_vn o = Some (DFinal i) \/ d_dn o = Some (DFinal i)) -> d = DFinal i.
+Proof.
+  intros o d i K V [A|A]; [congruence|].
+  destruct (K _ A) as [B|[B|[k [[T|T] _]]]]; try congruence; discriminate.
+Qed.
+
+Lemma dinv_in_dir : forall d g o,
+  dinv o -> d_vn o = Some d ->
+  (Forall fK (d_files o) -> Forall fK (g (d_files o))) ->
+  (forall i, d = DFinal i -> Forall fK (d_files o) -> fgood i (d_files o) -> fgood i (g (d_files o))) ->
+  dinv (mkD (d_vn o) (d_dn o) (g (d_files o))).
+Proof.
+  intros d g o (K & FK & GD) V H1 H2. split; [exact K|]. split; [simpl; auto|].
+  simpl. intros i Hi. apply H2; auto. eapply dinv_final_index; eauto.
+Qed.
+
+Lemma Forall_dinv_in_dir : forall d g l,
+  Forall dinv l ->
+  (forall fl, Forall fK fl -> Forall fK (g fl)) ->
+  (forall i fl, d = DFinal i -> Forall fK fl -> fgood i fl -> fgood i (g fl)) ->
+  Forall dinv (in_dir d g l).
+Proof.
+  intros d g l H H1 H2. unfold in_dir. rewrite Forall_map_iff. eapply Forall_impl_in; [exact H|].
+  intros o _ Ho. destruct (d_is (d_vn o) d) eqn:E; [|exact Ho].
+  apply d_is_eq in E. eapply dinv_in_dir; eauto.
+Qed.
+
+Definition is_rec (r : N) (o : dobj) : Prop := d_vn o = Some (DFinal r) /\ d_dn o = Some (DFinal r).
+
+Lemma is_rec_in_dir : forall r d g l, Exists (is_rec r) l -> Exists (is_rec r) (in_dir d g l).
+Proof.
+  intros r d g l H. unfold in_dir. rewrite Exists_map_iff. rewrite Exists_exists in *.
+  destruct H as [o [Ho P]]. exists o. split; auto. destruct (d_is (d_vn o) d); auto.
+Qed.
+
+Lemma dinv_unbind : forall n o, dinv o -> dinv (d_unbind n o).
+Proof.
+  intros n o H. unfold d_unbind. destruct (d_is (d_vn o) n); [|exact H].
+  destruct H as (K & FK & GD). split; [|split]; simpl; auto.
+  - intros m Hm. left. reflexivity.
+  - intros i [A|A]; [discriminate|]. apply GD. auto.
+Qed.
+
+Lemma is_rec_unbind : forall r n l,
+  n <> DFinal r -> Exists (is_rec r) l -> Exists (is_rec r) (filter d_alive (map (d_unbind n) l)).
+Proof.
+  intros r n l Hn H. apply Exists_filter_s. rewrite Exists_map_iff. rewrite Exists_exists in *.
+  destruct H as [o [Ho [V D]]]. exists o. split; auto.
+  unfold d_unbind. destruct (d_is (d_vn o) n) eqn:E.
+  - apply d_is_eq in E. congruence.
+  - split; [split; assumption|]. unfold d_alive. rewrite V. reflexivity.
+Qed.
+
+Lemma has_dir_false : forall n l, has_dir n l = false -> Forall (fun o => d_vn o <> Some n) l.
+Proof.
+  intros n l H. unfold has_dir in H. rewrite Forall_forall. intros o Ho E.
+  assert (X : existsb (fun o => d_is (d_vn o) n) l = true).
+  { apply existsb_exists. exists o. split; auto. apply d_is_eq. exact E. }
+  congruence.
+Qed.
+
+Lemma crash_inv_fs : forall l, Forall dinv l -> Forall dinv (fs_crash l).
+Proof.
+  intros l H. unfold fs_crash. rewrite Forall_map_iff. apply Forall_filter_w.
+  eapply Forall_impl_in; [exact H|]. intros o _ (K & FK & GD). split; [|split]; simpl.
+  - intros n Hn. right. left. exact Hn.
+  - apply fK_crash.
+  - intros i Hi. apply fgood_crash. apply GD. right. destruct Hi; assumption.
+Qed.
+
+(* every allowed operation preserves the invariant *)
+Lemma step_inv : forall s o t, Inv s -> allowed s o -> step s o = Some t -> Inv t.
+Proof.
+  intros [l r] o t [HI HR] A S. unfold recorded_dir in HR. simpl in HR.
+  destruct o as [f | i | ]; simpl in S.
+  - destruct (fs_step l f) as [l'|] eqn:FS; [|discriminate]. inversion S; subst t; clear S.
+    unfold Inv, recorded_dir; simpl. fold (is_rec r).
+    destruct f; simpl in FS, A.
+    + (* mkdir *) inversion FS; subst l'; clear FS. unfold fs_mkdir. destruct (has_dir d l); [split; assumption|].
+      split.
+      * constructor; [|exact HI]. split; [|split]; simpl.
+        -- intros n Hn. discriminate.
+        -- constructor.
+        -- intros i [X|X]; [|discriminate]. inversion X; subst d. discriminate.
+      * intros Hr. apply Exists_cons_tl. auto.
+    + (* syncroot *) inversion FS; subst l'; clear FS. unfold fs_syncroot. split.
+      * apply Forall_filter_w. rewrite Forall_map_iff. eapply Forall_impl_in; [exact HI|].
+        intros o _ (K & FK & GD). split; [|split]; simpl; auto.
+        -- intros n Hn. right. left. exact Hn.
+        -- intros i Hi. apply GD. left. destruct Hi; assumption.
+      * intros Hr. apply Exists_filter_s. rewrite Exists_map_iff. specialize (HR Hr).
+        rewrite Exists_exists in *. destruct HR as [o [Ho [V D]]]. exists o. split; auto.
+        simpl. split; [split; assumption|]. unfold d_alive. simpl. rewrite V. reflexivity.
+    + (* create *) destruct (has_dir d l); [|discriminate]. inversion FS; subst l'; clear FS. split.
+      * apply Forall_dinv_in_dir; auto.
+        -- intros. apply fK_create; auto.
+        -- intros i fl -> _ G. unfold file_ok in A. subst f. apply fgood_create; auto.
+      * intros Hr. apply is_rec_in_dir; auto.
+    + (* write *) inversion FS; subst l'; clear FS. split.
+      * apply Forall_dinv_in_dir; auto.
+        -- intros. unfold fl_write. apply fK_vd with (p := fun o => f_is (f_vn o) f) (w := fun v => v ++ x); auto.
+        -- intros i fl -> _ G. unfold fl_write. unfold file_ok in A. subst f. apply fgood_vd with (w := fun v => v ++ x); auto.
+      * intros Hr. apply is_rec_in_dir; auto.
+    + (* writeat *) inversion FS; subst l'; clear FS. split.
+      * apply Forall_dinv_in_dir; auto.
+        -- intros. unfold fl_writeat. apply fK_vd with (p := fun o => f_is (f_vn o) f) (w := overwrite off x); auto.
+        -- intros i fl -> _ G. unfold fl_writeat. unfold file_ok in A. subst f. apply fgood_vd with (w := overwrite off x); auto.
+      * intros Hr. apply is_rec_in_dir; auto.
+    + (* syncfile *) inversion FS; subst l'; clear FS. split.
+      * apply Forall_dinv_in_dir; auto.
+        -- intros. apply fK_syncfile; auto.
+        -- intros i fl -> K G. unfold file_ok in A. subst f. apply fgood_syncfile; auto.
+      * intros Hr. apply is_rec_in_dir; auto.
+    + (* syncdir *) destruct (has_dir d l); [|discriminate]. inversion FS; subst l'; clear FS. split.
+      * apply Forall_dinv_in_dir; auto.
+        -- intros. apply fK_syncdir.
+        -- intros i fl _ _ G. apply fgood_syncdir; auto.
+      * intros Hr. apply is_rec_in_dir; auto.
+    + (* renamedir *) destruct (has_dir a l); [|discriminate]. inversion FS; subst l'; clear FS.
+      destruct A as [i [NZ [T [-> [NB GA]]]]]. split.
+      * unfold fs_renamedir. apply Forall_filter_w. rewrite Forall_map_iff.
+        rewrite Forall_forall in *. intros o Ho. specialize (HI o Ho). specialize (GA o Ho).
+        destruct (d_is (d_vn o) a) eqn:E.
+        -- apply d_is_eq in E. destruct HI as (K & FK & GD). split; [|split]; simpl; auto.
+           ++ intros n Hn. right. right. exists i. split; [|reflexivity].
+              destruct (K _ Hn) as [B|[B|[k [[T1|T1] B]]]]; try congruence.
+              ** destruct T as [T|T]; rewrite T in E; rewrite E in B; discriminate.
+              ** destruct T as [T|T]; rewrite T in E; rewrite E in B; discriminate.
+           ++ intros j [X|X].
+              ** inversion X; subst j. auto.
+              ** destruct (K _ X) as [B|[B|[k [[T1|T1] B]]]]; try congruence; try discriminate.
+                 destruct T as [T|T]; rewrite T in E; rewrite E in B; discriminate.
+        -- apply dinv_unbind. exact HI.
+      * intros Hr. specialize (HR Hr). unfold fs_renamedir. apply Exists_filter_s. rewrite Exists_map_iff.
+        rewrite Exists_exists in *. destruct HR as [o [Ho [V D]]]. exists o. split; auto.
+        pose proof (has_dir_false _ _ NB) as NBF. rewrite Forall_forall in NBF. specialize (NBF o Ho).
+        destruct (d_is (d_vn o) a) eqn:E.
+        -- apply d_is_eq in E. destruct T as [T|T]; rewrite T in E; congruence.
+        -- unfold d_unbind. destruct (d_is (d_vn o) (DFinal i)) eqn:E2.
+           ++ apply d_is_eq in E2. contradiction.
+           ++ split; [split; assumption|]. unfold d_alive. rewrite V. reflexivity.
+    + (* renamefile *) destruct (has_file d a l); [|discriminate]. inversion FS; subst l'; clear FS.
+      destruct A as [i [-> [-> [-> GA]]]]. split.
+      * unfold in_dir. rewrite Forall_map_iff. rewrite Forall_forall in *. intros o Ho.
+        specialize (HI o Ho). specialize (GA o Ho).
+        destruct (d_is (d_vn o) (DFinal i)) eqn:E; [|exact HI].
+        apply d_is_eq in E. destruct (GA E) as [EX VA].
+        eapply dinv_in_dir; eauto.
+        -- intros. apply fK_rename; auto.
+        -- intros j Hj K G. inversion Hj; subst j. apply fgood_rename; auto.
+      * intros Hr. apply is_rec_in_dir; auto.
+    + (* remove *) destruct (has_file d f l); [|discriminate]. inversion FS; subst l'; clear FS. split.
+      * apply Forall_dinv_in_dir; auto.
+        -- intros. apply fK_remove; auto.
+        -- intros i fl -> _ G. subst f. apply fgood_remove_flag; auto.
+      * intros Hr. apply is_rec_in_dir; auto.
+    + (* removeall *) inversion FS; subst l'; clear FS. unfold fs_removeall. split.
+      * apply Forall_filter_w. rewrite Forall_map_iff. eapply Forall_impl_in; [exact HI|].
+        intros o _. apply dinv_unbind.
+      * intros Hr. apply is_rec_unbind; auto. destruct d; try discriminate. intro X. inversion X. congruence.
+  - (* record *) inversion S; subst t; clear S. destruct A as [Hi EX]. split; simpl; [exact HI|].
+    unfold recorded_dir; simpl. intros Hm.
+    destruct (N.max_spec r i) as [[_ M]|[_ M]]; rewrite M in *; auto.
+  - (* crash *) inversion S; subst t; clear S. split; simpl.
+    + apply crash_inv_fs; auto.
+    + unfold recorded_dir; simpl. intros Hr. specialize (HR Hr). unfold fs_crash.
+      rewrite Exists_map_iff. apply Exists_filter_s. rewrite Exists_exists in *.
+      destruct HR as [o [Ho [V D]]]. exists o. split; auto. simpl. rewrite D. auto.
+Qed.
+
+(* ---------------------------------------------------------------------- *)
+(* no directory is ever named for index 0 (an "empty" snapshot) *)
+
+Definition nz (o : dobj) : Prop := d_vn o <> Some (DFinal 0) /\ d_dn o <> Some (DFinal 0).
+Definition NoZero (s : state) : Prop := Forall nz (st_fs s).
+
+Lemma step_nozero : forall s o t, NoZero s -> allowed s o -> step s o = Some t -> NoZero t.
+Proof.
+  intros [l r] o t HZ A S. unfold NoZero in *. simpl in *.
+  assert (IND : forall d g, Forall nz (in_dir d g l)).
+  { intros d g. unfold in_dir. rewrite Forall_map_iff. eapply Forall_impl_in; [exact HZ|].
+    intros o' _ Ho. destruct (d_is (d_vn o') d); auto. }
+  assert (UNB : forall n, Forall nz (filter d_alive (map (d_unbind n) l))).
+  { intros n. apply Forall_filter_w. rewrite Forall_map_iff. eapply Forall_impl_in; [exact HZ|].
+    intros o' _ [H1 H2]. unfold d_unbind. destruct (d_is (d_vn o') n); split; simpl; auto. discriminate. }
+  destruct o as [f | i | ]; simpl in S.
+  - destruct (fs_step l f) as [l'|] eqn:FS; [|discriminate]. inversion S; subst t; clear S. simpl.
+    destruct f; simpl in FS, A.
+    + injection FS as <-. unfold fs_mkdir. destruct (has_dir d l); auto. constructor; auto. split; simpl; [|discriminate].
+      intro X. inversion X; subst d. discriminate.
+    + injection FS as <-. unfold fs_syncroot. apply Forall_filter_w. rewrite Forall_map_iff. eapply Forall_impl_in; [exact HZ|].
+      intros o' _ [H1 H2]. split; simpl; auto.
+    + destruct (has_dir d l); [|discriminate]. injection FS as <-. apply IND.
+    + injection FS as <-. apply IND.
+    + injection FS as <-. apply IND.
+    + injection FS as <-. apply IND.
+    + destruct (has_dir d l); [|discriminate]. injection FS as <-. apply IND.
+    + destruct (has_dir a l); [|discriminate]. injection FS as <-.
+      destruct A as [i [NZ [T [-> _]]]]. unfold fs_renamedir. apply Forall_filter_w. rewrite Forall_map_iff.
+      eapply Forall_impl_in; [exact HZ|]. intros o' _ [H1 H2]. destruct (d_is (d_vn o') a).
+      * split; simpl; auto. intro X. inversion X. congruence.
+      * unfold d_unbind. destruct (d_is (d_vn o') (DFinal i)); split; simpl; auto. discriminate.
+    + destruct (has_file d a l); [|discriminate]. injection FS as <-. apply IND.
+    + destruct (has_file d f l); [|discriminate]. injection FS as <-. apply IND.
+    + injection FS as <-. apply UNB.
+  - inversion S; subst t; auto.
+  - inversion S; subst t; simpl. unfold fs_crash. rewrite Forall_map_iff. apply Forall_filter_w.
+    eapply Forall_impl_in; [exact HZ|]. intros o' _ [H1 H2]. split; simpl; auto.
+Qed.
+
+(* ---------------------------------------------------------------------- *)
+(* runs *)
+
+Fixpoint allowed_run (s : state) (ops : list op) : Prop :=
+  match ops with
+  | [] => True
+  | o :: r => match step s o with
+              | Some t => allowed s o /\ allowed_run t r
+              | None => allowed_run s r
+              end
+  end.
+
+Definition Good (s : state) : Prop := Inv s /\ NoZero s.
+
+Lemma run_cons : forall s o r, run s (o :: r) = run (step' s o) r.
+Proof. reflexivity. Qed.
+
+Lemma run_app : forall a s b, run s (a ++ b) = run (run s a) b.
+Proof. intros. unfold run. apply fold_left_app. Qed.
+
+Lemma run_good : forall ops s, Good s -> allowed_run s ops -> Good (run s ops).
+Proof.
+  induction ops as [|o r IH]; intros s G A; [exact G|].
+  rewrite run_cons. unfold step'. simpl in A. destruct (step s o) as [t|] eqn:E.
+  - destruct A as [A1 A2]. apply IH; auto. destruct G as [G1 G2]. split.
+    + eapply step_inv; eauto.
+    + eapply step_nozero; eauto.
+  - apply IH; auto.
+Qed.
+
+Lemma allowed_run_app : forall a s b, allowed_run s (a ++ b) <-> allowed_run s a /\ allowed_run (run s a) b.
+Proof.
+  induction a as [|o r IH]; intros s b.
+  - simpl. tauto.
+  - cbn [allowed_run app]. rewrite run_cons. unfold step'. destruct (step s o) as [t|].
+    + rewrite IH. tauto.
+    + apply IH.
+Qed.
+
+Lemma allowed_run_app_i : forall a s b, allowed_run s a -> allowed_run (run s a) b -> allowed_run s (a ++ b).
+Proof. intros. apply allowed_run_app. auto. Qed.
+
+Lemma allowed_run_firstn : forall k ops s, allowed_run s ops -> allowed_run s (firstn k ops).
+Proof.
+  intros k ops s H. rewrite <- (firstn_skipn k ops) in H. apply allowed_run_app in H. tauto.
+Qed.
+
+Lemma good_init : Good init.
+Proof. split; [split|]; simpl; try constructor. unfold recorded_dir. simpl. intros H; contradiction. Qed.
+
+(* ---------------------------------------------------------------------- *)
+(* processOrphans *)
+
+Definition dsynced (o : dobj) : Prop := d_dn o = d_vn o /\ d_vn o <> None.
+Definition DSynced (s : state) : Prop := Forall dsynced (st_fs s).
+
+Definition kept (r : N) (o : dobj) : Prop :=
+  d_dn o = d_vn o /\
+  match d_vn o with
+  | Some (DOther _) => True
+  | Some (DFinal i) => i = r /\ r <> 0 /\ fl_has FFlag (d_files o) = false
+  | _ => False
+  end.
+
+Lemma has_dir_in : forall n l, has_dir n l = true <-> exists o, In o l /\ d_vn o = Some n.
+Proof.
+  intros. unfold has_dir. rewrite existsb_exists. split; intros [o [Ho E]]; exists o; split; auto; apply d_is_eq; auto.
+Qed.
+
+Lemma has_file_in : forall n f l, has_file n f l = true <->
+  exists o, In o l /\ d_vn o = Some n /\ fl_has f (d_files o) = true.
+Proof.
+  intros. unfold has_file. rewrite existsb_exists. split; intros [o [Ho E]]; exists o; split; auto.
+  - apply andb_true_iff in E. destruct E as [E1 E2]. apply d_is_eq in E1. auto.
+  - destruct E as [E1 E2]. apply andb_true_iff. split; auto. apply d_is_eq. auto.
+Qed.
+
+Lemma has_file_false : forall n f l o, has_file n f l = false -> In o l -> d_vn o = Some n -> fl_has f (d_files o) = false.
+Proof.
+  intros n f l o H Ho V. destruct (fl_has f (d_files o)) eqn:E; auto.
+  assert (X : has_file n f l = true) by (apply has_file_in; eauto). congruence.
+Qed.
+
+Lemma fl_has_remove : forall f l, fl_has f (fl_remove f l) = false.
+Proof.
+  intros f l. unfold fl_has, fl_remove. destruct (existsb _ _) eqn:E; auto.
+  apply existsb_exists in E. destruct E as [x [Hx P]]. apply filter_In in Hx. destruct Hx as [Hx _].
+  apply in_map_iff in Hx. destruct Hx as [y [<- _]]. unfold f_unbind in P.
+  destruct (f_is (f_vn y) f) eqn:E2; simpl in P; congruence.
+Qed.
+
+Lemma d_eta : forall o, d_dn o = d_vn o -> mkD (d_vn o) (d_vn o) (d_files o) = o.
+Proof. intros [v d fl] H. simpl in *. subst. reflexivity. Qed.
+
+Lemma rm_sync_in : forall n l o', Forall dsynced l ->
+  (In o' (fs_syncroot (fs_removeall n l)) <-> In o' l /\ d_vn o' <> Some n).
+Proof.
+  intros n l o' HS. unfold fs_syncroot, fs_removeall. rewrite Forall_forall in HS. split.
+  - intros H. apply filter_In in H. destruct H as [H AL]. apply in_map_iff in H. destruct H as [x [<- Hx]].
+    apply filter_In in Hx. destruct Hx as [Hx _]. apply in_map_iff in Hx. destruct Hx as [o [<- Ho]].
+    destruct (HS o Ho) as [SD SV]. unfold d_unbind in *. destruct (d_is (d_vn o) n) eqn:E.
+    + simpl in AL. discriminate.
+    + rewrite d_eta; auto. split; auto. apply d_is_neq. exact E.
+  - intros [Ho NE]. destruct (HS o' Ho) as [SD SV]. apply filter_In. split.
+    + apply in_map_iff. exists o'. split; [apply d_eta; auto|]. apply filter_In. split.
+      * apply in_map_iff. exists o'. split; auto. unfold d_unbind. apply d_is_neq in NE. rewrite NE. reflexivity.
+      * unfold d_alive. destruct (d_vn o'); [reflexivity|contradiction].
+    + unfold d_alive. destruct (d_vn o'); [reflexivity|contradiction].
+Qed.
+
+Lemma head_all : forall {A} (c : A) l, l <> [] -> Forall (fun x => x = c) l -> hd_error l = Some c.
+Proof. intros A c [|x r] H F; [contradiction|]. inversion F; subst. reflexivity. Qed.
+
+Lemma read_file_hd : forall d f s, read_file d f s =
+  hd_error (flat_map (fun o => if d_is (d_vn o) d
+                           then flat_map (fun x => if f_is (f_vn x) f then [f_vd x] else []) (d_files o)
+                           else []) s).
+Proof. intros. unfold read_file. destruct (flat_map _ s); reflexivity. Qed.
+
+Lemma read_flag : forall i l, Forall dinv l -> has_file (DFinal i) FFlag l = true ->
+  read_file (DFinal i) FFlag l = Some (flag_data i).
+Proof.
+  intros i l HI HF. rewrite read_file_hd. apply head_all.
+  - apply has_file_in in HF. destruct HF as [o [Ho [V FH]]]. unfold fl_has in FH. apply existsb_exists in FH.
+    destruct FH as [x [Hx P]]. intro E.
+    assert (X : In (f_vd x) (flat_map (fun o => if d_is (d_vn o) (DFinal i)
+                           then flat_map (fun x => if f_is (f_vn x) FFlag then [f_vd x] else []) (d_files o)
+                           else []) l)).
+    { apply in_flat_map. exists o. split; auto. apply d_is_eq in V. rewrite V. apply in_flat_map. exists x.
+      split; auto. rewrite P. left. reflexivity. }
+    rewrite E in X. contradiction.
+  - rewrite Forall_forall. intros v Hv. apply in_flat_map in Hv. destruct Hv as [o [Ho Hv]].
+    destruct (d_is (d_vn o) (DFinal i)) eqn:E; [|contradiction]. apply d_is_eq in E.
+    apply in_flat_map in Hv. destruct Hv as [x [Hx Hv]]. destruct (f_is (f_vn x) FFlag) eqn:E2; [|contradiction].
+    apply f_is_eq in E2. destruct Hv as [<-|[]].
+    rewrite Forall_forall in HI. destruct (HI o Ho) as (_ & _ & GD). destruct (GD i (or_introl E)) as (_ & _ & _ & G).
+    rewrite Forall_forall in G. destruct (G x Hx) as [_ G2]. auto.
+Qed.
+
+Lemma flag_index_data : forall i, i <> 0 -> flag_index (flag_data i) = Some i.
+Proof.
+  intros i H. unfold flag_index, flag_data. rewrite N.eqb_refl. apply N.eqb_neq in H. rewrite H. reflexivity.
+Qed.
+
+Definition names_cover (names : list dname) (r : N) (l : fs) : Prop :=
+  Forall (fun o => (exists n, d_vn o = Some n /\ In n names) \/ kept r o) l.
+
+Lemma exec_rmdir : forall s n,
+  exec s (rmdir_ops n) = (mkS (fs_syncroot (fs_removeall n (st_fs s))) (st_rec s), rmdir_ops n, true).
+Proof. intros [l r] n. reflexivity. Qed.
+
+Lemma allowed_rmdir : forall s n,
+  (match n with DFinal j => j <> st_rec s | _ => True end) -> allowed_run s (rmdir_ops n).
+Proof. intros [l r] n H. simpl. auto. Qed.
+
+Lemma run_rmdir : forall s n, run s (rmdir_ops n) = mkS (fs_syncroot (fs_removeall n (st_fs s))) (st_rec s).
+Proof. intros [l r] n. reflexivity. Qed.
+
+(* one iteration that removes directory n *)
+Lemma po_remove_step : forall n R s,
+  DSynced s -> ~ In n R ->
+  Forall (fun m => has_dir m (st_fs s) = true) R ->
+  names_cover (n :: R) (st_rec s) (st_fs s) ->
+  let t := mkS (fs_syncroot (fs_removeall n (st_fs s))) (st_rec s) in
+  DSynced t /\ Forall (fun m => has_dir m (st_fs t) = true) R /\ names_cover R (st_rec t) (st_fs t).
+Proof.
+  intros n R [l r] HS NI HD HC t. unfold DSynced, names_cover in *. simpl in *.
+  pose proof (fun o' => rm_sync_in n l o' HS) as IN. split; [|split].
+  - rewrite Forall_forall in *. intros o Ho. apply IN in Ho. apply HS. tauto.
+  - rewrite Forall_forall in *. intros m Hm. specialize (HD m Hm). apply has_dir_in in HD. destruct HD as [o [Ho V]].
+    apply has_dir_in. exists o. split; auto. apply IN. split; auto. rewrite V. intro X. inversion X. subst. contradiction.
+  - rewrite Forall_forall in *. intros o Ho. apply IN in Ho. destruct Ho as [Ho NE].
+    destruct (HC o Ho) as [[m [V [E|I]]]|K]; auto.
+    + subst m. contradiction.
+    + left. exists m. auto.
+Qed.
+
+Lemma po_loop_cons_ok : forall n R s ops t u tr2,
+  po_one n s = Some ops -> exec s ops = (t, ops, true) -> po_loop R t = (u, tr2, true) ->
+  po_loop (n :: R) s = (u, ops ++ tr2, true).
+Proof. intros n R s ops t u tr2 H1 H2 H3. simpl. rewrite H1, H2, H3. reflexivity. Qed.
+
+Lemma kept_of_other : forall r o k, dsynced o -> d_vn o = Some (DOther k) -> kept r o.
+Proof. intros r o k [D _] V. split; auto. rewrite V. exact I. Qed.
+
+Lemma po_loop_ok : forall names s,
+  Good s -> DSynced s -> NoDup names ->
+  Forall (fun n => has_dir n (st_fs s) = true) names ->
+  names_cover names (st_rec s) (st_fs s) ->
+  exists u tr, po_loop names s = (u, tr, true) /\ allowed_run s tr /\ u = run s tr /\
+               st_rec u = st_rec s /\ DSynced u /\ Forall (kept (st_rec s)) (st_fs u).
+Proof.
+  induction names as [|n R IH]; intros s G HS ND HD HC.
+  - exists s, []. simpl. repeat split; auto. unfold names_cover in HC.
+    eapply Forall_impl_in; [exact HC|]. intros o _ [[m [_ []]]|K]; auto.
+  - inversion ND as [|? ? NI ND']; subst. inversion HD as [|? ? HDn HDR]; subst.
+    (* the iteration that removes n *)
+    assert (REMOVE : (match n with DFinal j => j <> st_rec s | _ => True end) ->
+                     po_one n s = Some (rmdir_ops n) ->
+                     exists u tr, po_loop (n :: R) s = (u, tr, true) /\ allowed_run s tr /\ u = run s tr /\
+                       st_rec u = st_rec s /\ DSynced u /\ Forall (kept (st_rec s)) (st_fs u)).
+    { intros AL PO. pose proof (po_remove_step n R s HS NI HDR HC) as (S1 & S2 & S3).
+      set (t := mkS (fs_syncroot (fs_removeall n (st_fs s))) (st_rec s)) in *.
+      assert (A : allowed_run s (rmdir_ops n)) by (apply allowed_rmdir; auto).
+      assert (Gt : Good t). { unfold t. rewrite <- run_rmdir. apply run_good; auto. }
+      destruct (IH t Gt S1 ND' S2 S3) as [u [tr2 (P1 & P2 & P3 & P4 & P5 & P6)]].
+      exists u, (rmdir_ops n ++ tr2). split; [|split; [|split; [|split; [|split]]]].
+      - eapply po_loop_cons_ok; eauto; try apply exec_rmdir.
+      - apply allowed_run_app. split; auto; try (rewrite run_rmdir; exact P2).
+      - rewrite run_app, run_rmdir. exact P3.
+      - exact P4.
+      - exact P5.
+      - exact P6. }
+    (* the iteration that leaves the objects named n, all of them kept *)
+    assert (KEEP : forall ops t, po_one n s = Some ops -> exec s ops = (t, ops, true) -> allowed_run s ops ->
+                     t = run s ops -> st_rec t = st_rec s -> DSynced t ->
+                     Forall (fun m => has_dir m (st_fs t) = true) R ->
+                     names_cover R (st_rec s) (st_fs t) ->
+                     exists u tr, po_loop (n :: R) s = (u, tr, true) /\ allowed_run s tr /\ u = run s tr /\
+                       st_rec u = st_rec s /\ DSynced u /\ Forall (kept (st_rec s)) (st_fs u)).
+    { intros ops t PO EX A RT RR S1 S2 S3.
+      assert (Gt : Good t) by (rewrite RT; apply run_good; auto).
+      rewrite <- RR in S3.
+      destruct (IH t Gt S1 ND' S2 S3) as [u [tr2 (P1 & P2 & P3 & P4 & P5 & P6)]].
+      exists u, (ops ++ tr2). split; [|split; [|split; [|split; [|split]]]].
+      - eapply po_loop_cons_ok; eauto.
+      - apply allowed_run_app. split; auto. rewrite <- RT. exact P2.
+      - rewrite run_app, <- RT. exact P3.
+      - congruence.
+      - exact P5.
+      - rewrite <- RR. exact P6. }
+    (* no operation at all *)
+    assert (NOOP : po_one n s = Some [] ->
+                   (forall o, In o (st_fs s) -> d_vn o = Some n -> kept (st_rec s) o) ->
+                     exists u tr, po_loop (n :: R) s = (u, tr, true) /\ allowed_run s tr /\ u = run s tr /\
+                       st_rec u = st_rec s /\ DSynced u /\ Forall (kept (st_rec s)) (st_fs u)).
+    { intros PO KP. apply (KEEP [] s); auto; try reflexivity. simpl; auto.
+      unfold names_cover in *. rewrite Forall_forall in *. intros o Ho.
+      destruct (HC o Ho) as [[m [V [E|I]]]|K]; auto.
+      - subst m. right. apply KP; auto.
+      - left. exists m. auto. }
+    destruct n as [i | i | i | k].
+    + (* a snapshot directory *)
+      assert (NZi : i <> 0).
+      { apply has_dir_in in HDn. destruct HDn as [o [Ho V]]. destruct G as [_ GZ]. unfold NoZero in GZ.
+        rewrite Forall_forall in GZ. destruct (GZ o Ho) as [Z _]. intro X. subst i. contradiction. }
+      destruct (has_file (DFinal i) FFlag (st_fs s)) eqn:HF.
+      * (* orphan: flag file present *)
+        assert (RF : read_file (DFinal i) FFlag (st_fs s) = Some (flag_data i)) by (apply read_flag; auto; apply G).
+        destruct ((st_rec s =? 0) || negb (st_rec s =? i)) eqn:RM.
+        -- apply REMOVE.
+           ++ apply orb_true_iff in RM. destruct RM as [RM|RM].
+              ** apply N.eqb_eq in RM. congruence.
+              ** apply negb_true_iff in RM. apply N.eqb_neq in RM. congruence.
+           ++ unfold po_one. rewrite HDn. simpl negb. cbv iota. rewrite HF, RF, flag_index_data by auto. rewrite RM. reflexivity.
+        -- apply orb_false_iff in RM. destruct RM as [RM1 RM2]. apply N.eqb_neq in RM1.
+           apply negb_false_iff in RM2. apply N.eqb_eq in RM2.
+           set (t := mkS (in_dir (DFinal i) (fl_remove FFlag) (st_fs s)) (st_rec s)).
+           assert (EX : exec s [OFs (FRemove (DFinal i) FFlag)] = (t, [OFs (FRemove (DFinal i) FFlag)], true)).
+           { destruct s as [l r]. simpl in *. rewrite HF. reflexivity. }
+           assert (ST : step s (OFs (FRemove (DFinal i) FFlag)) = Some t).
+           { destruct s as [l r]. simpl in *. rewrite HF. reflexivity. }
+           apply (KEEP [OFs (FRemove (DFinal i) FFlag)] t); auto.
+           ++ unfold po_one. rewrite HDn. simpl negb. cbv iota. rewrite HF, RF, flag_index_data by auto.
+              rewrite RM2. rewrite N.eqb_refl. apply N.eqb_neq in NZi. rewrite NZi. reflexivity.
+           ++ cbn [allowed_run]. rewrite ST. simpl. auto.
+           ++ unfold run. cbn [fold_left]. unfold step'. rewrite ST. reflexivity.
+           ++ unfold DSynced in *. simpl. unfold in_dir. rewrite Forall_map_iff. eapply Forall_impl_in; [exact HS|].
+              intros o _ D. destruct (d_is (d_vn o) (DFinal i)); auto.
+           ++ rewrite Forall_forall in *. intros m Hm. specialize (HDR m Hm). apply has_dir_in in HDR.
+              destruct HDR as [o [Ho V]]. apply has_dir_in. simpl.
+              exists (if d_is (d_vn o) (DFinal i) then mkD (d_vn o) (d_dn o) (fl_remove FFlag (d_files o)) else o).
+              split; [unfold in_dir; apply in_map_iff; exists o; auto|]. destruct (d_is (d_vn o) (DFinal i)); auto.
+           ++ unfold names_cover in *. simpl. unfold in_dir. rewrite Forall_map_iff. rewrite Forall_forall in *.
+              intros o Ho. unfold DSynced in HS. rewrite Forall_forall in HS. destruct (HS o Ho) as [SD SV].
+              destruct (d_is (d_vn o) (DFinal i)) eqn:E.
+              ** apply d_is_eq in E. right. split; simpl; auto. rewrite E. repeat split; auto. apply fl_has_remove.
+              ** destruct (HC o Ho) as [[m [V [X|I]]]|K]; auto.
+                 --- subst m. apply d_is_neq in E. contradiction.
+                 --- left. exists m. auto.
+      * (* snapshot without flag *)
+        destruct ((st_rec s =? 0) || negb (i =? st_rec s)) eqn:RM.
+        -- apply REMOVE.
+           ++ apply orb_true_iff in RM. destruct RM as [RM|RM].
+              ** apply N.eqb_eq in RM. congruence.
+              ** apply negb_true_iff in RM. apply N.eqb_neq in RM. congruence.
+           ++ unfold po_one. rewrite HDn. simpl negb. cbv iota. rewrite HF, RM. reflexivity.
+        -- apply orb_false_iff in RM. destruct RM as [RM1 RM2]. apply N.eqb_neq in RM1.
+           apply negb_false_iff in RM2. apply N.eqb_eq in RM2. apply NOOP.
+           ++ unfold po_one. rewrite HDn. simpl negb. cbv iota. rewrite HF.
+              rewrite RM2. rewrite N.eqb_refl. apply N.eqb_neq in RM1. rewrite RM1. reflexivity.
+           ++ intros o Ho V. unfold DSynced in HS. rewrite Forall_forall in HS. destruct (HS o Ho) as [SD SV].
+              split; auto. rewrite V. repeat split; auto. eapply has_file_false; eauto.
+    + apply REMOVE; auto.
+    + apply REMOVE; auto.
+    + apply NOOP; auto. intros o Ho V. unfold DSynced in HS. rewrite Forall_forall in HS.
+      eapply kept_of_other; eauto.
+Qed.
+
+(* ---- listing ---- *)
+From Coq Require Import Permutation.
+
+Lemma vnames_in : forall n l, In n (vnames l) <-> exists o, In o l /\ d_vn o = Some n.
+Proof.
+  intros n l. unfold vnames. rewrite in_flat_map. split.
+  - intros [o [Ho H]]. exists o. split; auto. destruct (d_vn o); [|contradiction]. destruct H as [->|[]]. reflexivity.
+  - intros [o [Ho V]]. exists o. split; auto. rewrite V. left. reflexivity.
+Qed.
+
+Lemma dedup_in : forall l x, In x (dedup l) <-> In x l.
+Proof.
+  induction l as [|y r IH]; intros x; simpl; [tauto|].
+  rewrite filter_In, IH. split.
+  - intros [H|[H _]]; auto.
+  - intros [H|H]; auto. destruct (dname_eqb y x) eqn:E.
+    + apply dname_eqb_eq in E. auto.
+    + right. split; auto.
+Qed.
+
+Lemma dedup_nodup : forall l, NoDup (dedup l).
+Proof.
+  induction l as [|y r IH]; simpl; constructor.
+  - intro H. apply filter_In in H. destruct H as [_ H].
+    assert (E : dname_eqb y y = true) by (apply dname_eqb_eq; reflexivity). rewrite E in H. discriminate.
+  - apply NoDup_filter. exact IH.
+Qed.
+
+Definition ord_ok (ord : list dname -> list dname) : Prop := forall l, Permutation l (ord l).
+
+Lemma process_orphans_ok : forall ord s,
+  ord_ok ord -> Good s -> DSynced s ->
+  exists u tr, process_orphans ord s = (u, tr, true) /\ allowed_run s tr /\ u = run s tr /\
+               st_rec u = st_rec s /\ DSynced u /\ Forall (kept (st_rec s)) (st_fs u).
+Proof.
+  intros ord s HO G HS. unfold process_orphans. apply po_loop_ok; auto.
+  - eapply Permutation_NoDup; [apply HO | apply dedup_nodup].
+  - rewrite Forall_forall. intros n Hn. eapply Permutation_in in Hn; [|apply Permutation_sym; apply HO].
+    apply -> dedup_in in Hn. apply -> vnames_in in Hn. apply has_dir_in. exact Hn.
+  - unfold names_cover. rewrite Forall_forall. intros o Ho. unfold DSynced in HS. rewrite Forall_forall in HS.
+    destruct (HS o Ho) as [_ SV]. destruct (d_vn o) as [n|] eqn:V; [|contradiction].
+    left. exists n. split; auto. eapply Permutation_in; [apply HO|]. apply dedup_in. apply vnames_in. eauto.
+Qed.
+
+Lemma crash_dsynced : forall s, DSynced (mkS (fs_crash (st_fs s)) (st_rec s)).
+Proof.
+  intros s. unfold DSynced, fs_crash. simpl. rewrite Forall_map_iff. rewrite Forall_forall.
+  intros o Ho. apply filter_In in Ho. destruct Ho as [_ D]. split; simpl; auto.
+  destruct (d_dn o); [discriminate | discriminate].
+Qed.
+
+Lemma run_crash : forall s, run s [OCrash] = mkS (fs_crash (st_fs s)) (st_rec s).
+Proof. reflexivity. Qed.
+
+Lemma fgood_goodb : forall i l, fgood i l -> files_goodb i l = true.
+Proof.
+  intros i l (Ed & Ev & F & _). unfold files_goodb. rewrite !andb_true_iff. repeat split.
+  - apply existsb_exists. rewrite Exists_exists in Ed. destruct Ed as [f [Hf P]]. exists f. split; auto. apply f_is_eq; auto.
+  - apply existsb_exists. rewrite Exists_exists in Ev. destruct Ev as [f [Hf P]]. exists f. split; auto. apply f_is_eq; auto.
+  - apply forallb_forall. intros f Hf. rewrite Forall_forall in F. specialize (F f Hf).
+    destruct (f_is (f_vn f) (FSnap i)) eqn:E1; destruct (f_is (f_dn f) (FSnap i)) eqn:E2; simpl; auto;
+      apply F; try (left; apply f_is_eq; assumption); right; apply f_is_eq; assumption.
+Qed.
+
+Lemma kept_clean : forall s, Good s -> Forall (kept (st_rec s)) (st_fs s) -> cleanb s = true.
+Proof.
+  intros [l r] [[HI HR] _] HK. unfold cleanb. simpl in *. apply andb_true_iff. split.
+  - apply forallb_forall. intros o Ho. rewrite Forall_forall in HK, HI. destruct (HK o Ho) as [D K].
+    destruct (HI o Ho) as (_ & _ & GD).
+    destruct (d_vn o) as [[i|i|i|k]|] eqn:V; auto; try contradiction.
+    destruct K as (-> & NZ & NF). rewrite !andb_true_iff. repeat split.
+    + apply negb_true_iff. apply N.eqb_neq. exact NZ.
+    + apply N.eqb_refl.
+    + apply fgood_goodb. apply GD. auto.
+    + rewrite NF. reflexivity.
+  - destruct (r =? 0) eqn:E; auto. apply N.eqb_neq in E. simpl. unfold recorded_dir in HR. simpl in HR.
+    specialize (HR E). apply existsb_exists. rewrite Exists_exists in HR. destruct HR as [o [Ho [V D]]].
+    exists o. split; auto. apply andb_true_iff. split; apply d_is_eq; auto.
+Qed.
+
+(* the start-up cleanup after a crash of any allowed run *)
+Lemma cleanup_after_crash : forall ord s,
+  ord_ok ord -> Good s ->
+  exists u tr, process_orphans ord (run s [OCrash]) = (u, tr, true) /\ cleanb u = true /\
+               Good u /\ st_rec u = st_rec s.
+Proof.
+  intros ord s HO G.
+  assert (GC : Good (run s [OCrash])) by (apply run_good; simpl; auto).
+  pose proof (crash_dsynced s) as DS. rewrite <- run_crash in DS.
+  destruct (process_orphans_ok ord _ HO GC DS) as [u [tr (P1 & P2 & P3 & P4 & P5 & P6)]].
+  exists u, tr. assert (GU : Good u) by (rewrite P3; apply run_good; auto).
+  repeat split; auto; try apply GU.
+  apply kept_clean; auto. rewrite P4. exact P6.
+Qed.
+
+(* ---------------------------------------------------------------------- *)
+(* the recorded snapshot is durable and complete *)
+
+Definition durable_complete (s : state) (i : N) : Prop :=
+  exists o, In o (st_fs s) /\ d_vn o = Some (DFinal i) /\ d_dn o = Some (DFinal i) /\
+    exists f, In f (d_files o) /\ f_dn f = Some (FSnap i) /\ valid_snap (f_dd f) = true.
+
+Lemma good_recorded_complete : forall s, Good s -> st_rec s <> 0 -> durable_complete s (st_rec s).
+Proof.
+  intros s [[HI HR] _] NZ. specialize (HR NZ). rewrite Exists_exists in HR. destruct HR as [o [Ho [V D]]].
+  exists o. repeat split; auto. rewrite Forall_forall in HI. destruct (HI o Ho) as (_ & _ & GD).
+  destruct (GD _ (or_introl V)) as (Ed & _ & F & _). rewrite Exists_exists in Ed. destruct Ed as [f [Hf P]].
+  exists f. repeat split; auto. rewrite Forall_forall in F. apply (F f Hf). auto.
+Qed.
+
+Lemma guarded_recorded_implies_complete : forall ops k,
+  allowed_run init ops ->
+  let s := run init (firstn k ops) in st_rec s <> 0 -> durable_complete s (st_rec s).
+Proof.
+  intros ops k A s NZ. apply good_recorded_complete; auto. apply run_good; [apply good_init|].
+  apply allowed_run_firstn. exact A.
+Qed.
+
+Lemma guarded_cleanup : forall ord ops k,
+  ord_ok ord -> allowed_run init ops ->
+  exists u tr, process_orphans ord (run (run init (firstn k ops)) [OCrash]) = (u, tr, true) /\
+               cleanb u = true /\ st_rec u = st_rec (run init (firstn k ops)).
+Proof.
+  intros ord ops k HO A.
+  assert (G : Good (run init (firstn k ops))).
+  { apply run_good; [apply good_init|]. apply allowed_run_firstn. exact A. }
+  destruct (cleanup_after_crash ord _ HO G) as [u [tr (P1 & P2 & _ & P4)]]. exists u, tr. auto.
+Qed.
+
+(* ---------------------------------------------------------------------- *)
+(* the programs only issue allowed operations *)
+
+Definition gen_ok (i : N) (l : list fobj) : Prop :=
+  Exists (fun f => f_dn f = Some (FSnap i)) l /\ Exists (fun f => f_vn f = Some (FSnap i)) l /\ Forall (cF i) l.
+
+Lemma fgood_split : forall i l, fgood i l <-> gen_ok i l /\ Forall (cG i) l.
+Proof. intros. rewrite fgood_unfold. unfold gen_ok. tauto. Qed.
+
+Definition GenGood (s : state) : Prop :=
+  Forall (fun o => forall i, d_vn o = Some (DGen i) -> gen_ok i (d_files o)) (st_fs s).
+
+Definition J (s : state) : Prop := Good s /\ DSynced s /\ GenGood s.
+
+Definition static_ok (o : op) : Prop := forall s, allowed s o.
+
+Lemma allowed_run_static : forall ops s, Forall static_ok ops -> allowed_run s ops.
+Proof.
+  induction ops as [|o r IH]; intros s H; simpl; auto. inversion H; subst.
+  destruct (step s o); auto.
+Qed.
+
+(* exec, run and success *)
+Lemma exec_run : forall ops s u tr ok, exec s ops = (u, tr, ok) -> u = run s tr.
+Proof.
+  induction ops as [|o r IH]; intros s u tr ok H; simpl in H.
+  - inversion H; subst. reflexivity.
+  - destruct (step s o) as [t|] eqn:E.
+    + destruct (exec t r) as [[u' tr'] ok'] eqn:E2. inversion H; subst. rewrite run_cons. unfold step'. rewrite E.
+      eapply IH; eauto.
+    + inversion H; subst. reflexivity.
+Qed.
+
+Lemma exec_prefix : forall ops s u tr ok, exec s ops = (u, tr, ok) -> exists rest, ops = tr ++ rest.
+Proof.
+  induction ops as [|o r IH]; intros s u tr ok H; simpl in H.
+  - inversion H; subst. exists []. reflexivity.
+  - destruct (step s o) as [t|] eqn:E.
+    + destruct (exec t r) as [[u' tr'] ok'] eqn:E2. inversion H; subst. destruct (IH _ _ _ _ E2) as [rest ->].
+      exists rest. reflexivity.
+    + inversion H; subst. exists (o :: r). reflexivity.
+Qed.
+
+Lemma exec_allowed_static : forall ops s u tr ok,
+  Forall static_ok ops -> exec s ops = (u, tr, ok) -> allowed_run s tr.
+Proof.
+  intros ops s u tr ok H E. destruct (exec_prefix _ _ _ _ _ E) as [rest ->].
+  apply allowed_run_static. apply Forall_app in H. tauto.
+Qed.
+
+(* DSynced is re-established by SyncRoot and kept by operations inside a directory *)
+Lemma syncroot_dsynced : forall l, Forall dsynced (fs_syncroot l).
+Proof.
+  intros l. unfold fs_syncroot. rewrite Forall_forall. intros o Ho. apply filter_In in Ho. destruct Ho as [Ho AL].
+  apply in_map_iff in Ho. destruct Ho as [x [<- _]]. unfold d_alive in AL. simpl in *. split; auto.
+  destruct (d_vn x); [discriminate|discriminate].
+Qed.
+
+Lemma in_dir_dsynced : forall d g l, Forall dsynced l -> Forall dsynced (in_dir d g l).
+Proof.
+  intros. unfold in_dir. rewrite Forall_map_iff. eapply Forall_impl_in; eauto. intros o _ D.
+  destruct (d_is (d_vn o) d); auto.
+Qed.
+
+Definition gen_files (l : fs) : Prop := Forall (fun o => forall i, d_vn o = Some (DGen i) -> gen_ok i (d_files o)) l.
+
+Lemma in_dir_gen_other : forall d g l, (forall i, d <> DGen i) -> gen_files l -> gen_files (in_dir d g l).
+Proof.
+  intros d g l ND H. unfold gen_files, in_dir in *. rewrite Forall_map_iff. eapply Forall_impl_in; eauto.
+  intros o _ P. destruct (d_is (d_vn o) d) eqn:E; auto. apply d_is_eq in E. simpl. intros i V. exfalso. apply (ND i). congruence.
+Qed.
+
+Lemma syncroot_gen : forall l, gen_files l -> gen_files (fs_syncroot l).
+Proof.
+  intros l H. unfold gen_files, fs_syncroot in *. apply Forall_filter_w. rewrite Forall_map_iff.
+  eapply Forall_impl_in; eauto.
+Qed.
+
+Lemma unbind_gen : forall n l, gen_files l -> gen_files (filter d_alive (map (d_unbind n) l)).
+Proof.
+  intros n l H. unfold gen_files in *. apply Forall_filter_w. rewrite Forall_map_iff.
+  eapply Forall_impl_in; eauto. intros o _ P. unfold d_unbind. destruct (d_is (d_vn o) n); auto.
+  simpl. intros i X. discriminate.
+Qed.
+
+Lemma kept_gen : forall r l, Forall (kept r) l -> gen_files l.
+Proof.
+  intros r l H. unfold gen_files. eapply Forall_impl_in; eauto. intros o _ [_ K] i V. rewrite V in K. contradiction.
+Qed.
+
+(* ---- Compact ---- *)
+Lemma cmd_compact : forall s i t tr oc, J s ->
+  (if st_rec s <=? i then (s, [], Panicked) else fin (exec s (rmdir_ops (DFinal i)))) = (t, tr, oc) ->
+  allowed_run s tr /\ t = run s tr /\ J t.
+Proof.
+  intros s i t tr oc (G & HS & HG) H. destruct (st_rec s <=? i) eqn:E.
+  - inversion H; subst. simpl. repeat split; auto; apply G.
+  - apply N.leb_gt in E. rewrite exec_rmdir in H. simpl in H. inversion H; subst; clear H.
+    assert (A : allowed_run s (rmdir_ops (DFinal i))) by (apply allowed_rmdir; lia).
+    split; auto. split; [rewrite run_rmdir; reflexivity|]. split; [|split].
+    + rewrite <- run_rmdir. apply run_good; auto.
+    + unfold DSynced. simpl. apply syncroot_dsynced.
+    + unfold GenGood. simpl. apply syncroot_gen. apply unbind_gen. exact HG.
+Qed.
+
+(* ---- Apply (engine) ---- *)
+Lemma cmd_apply : forall s i t tr oc, J s ->
+  (if has_file (DFinal i) FFlag (st_fs s) then fin (exec s (apply_ops i)) else (s, [], Skipped)) = (t, tr, oc) ->
+  allowed_run s tr /\ t = run s tr /\ J t.
+Proof.
+  intros s i t tr oc (G & HS & HG) H. destruct (has_file (DFinal i) FFlag (st_fs s)) eqn:HF.
+  - rewrite apply_ops_order in H. destruct s as [l r]. simpl in *. rewrite HF in H. simpl in H.
+    inversion H; subst; clear H.
+    apply has_file_in in HF. destruct HF as [o [Ho [V FH]]].
+    unfold DSynced in HS. simpl in HS. rewrite Forall_forall in HS. destruct (HS o Ho) as [SD _].
+    assert (NZ : i <> 0).
+    { destruct G as [_ GZ]. unfold NoZero in GZ. simpl in GZ. rewrite Forall_forall in GZ. destruct (GZ o Ho) as [Z _].
+      intro X. subst i. contradiction. }
+    assert (HF2 : has_file (DFinal i) FFlag l = true) by (apply has_file_in; eauto).
+    assert (A : allowed_run (mkS l r) [ORecord i; OFs (FRemove (DFinal i) FFlag)]).
+    { simpl. rewrite HF2. simpl. repeat split; auto. rewrite Exists_exists. exists o. repeat split; auto. congruence. }
+    assert (R : run (mkS l r) [ORecord i; OFs (FRemove (DFinal i) FFlag)] = mkS (in_dir (DFinal i) (fl_remove FFlag) l) (N.max r i)).
+    { unfold run. simpl. unfold step'. simpl. rewrite HF2. reflexivity. }
+    split; auto. split; [rewrite R; reflexivity|]. split; [|split].
+    + rewrite <- R. apply run_good; auto.
+    + unfold DSynced. simpl. apply in_dir_dsynced. rewrite Forall_forall. exact HS.
+    + unfold GenGood. simpl. apply in_dir_gen_other; auto. discriminate.
+  - inversion H; subst. simpl. repeat split; auto; apply G.
+Qed.
+
+(* ---- Restart / Crash ---- *)
+Lemma cmd_restart : forall ord s t tr oc, ord_ok ord -> J s ->
+  fin (process_orphans ord s) = (t, tr, oc) -> allowed_run s tr /\ t = run s tr /\ J t.
+Proof.
+  intros ord s t tr oc HO (G & HS & HG) H.
+  destruct (process_orphans_ok ord s HO G HS) as [u [tr' (P1 & P2 & P3 & P4 & P5 & P6)]].
+  rewrite P1 in H. simpl in H. inversion H; subst t tr oc; clear H. split; auto. split; auto.
+  split; [|split]; auto.
+  - rewrite P3. apply run_good; auto.
+  - unfold GenGood. eapply kept_gen; eauto.
+Qed.
+
+Lemma cmd_crash : forall ord s t tr oc, ord_ok ord -> J s ->
+  seq (exec s [OCrash]) (fun s1 => fin (process_orphans ord s1)) = (t, tr, oc) ->
+  allowed_run s tr /\ t = run s tr /\ J t.
+Proof.
+  intros ord s t tr oc HO (G & HS & HG) H.
+  assert (E : exec s [OCrash] = (run s [OCrash], [OCrash], true)) by reflexivity.
+  rewrite E in H. unfold seq in H.
+  assert (GC : Good (run s [OCrash])) by (apply run_good; simpl; auto).
+  pose proof (crash_dsynced s) as DS. rewrite <- run_crash in DS.
+  destruct (process_orphans_ok ord _ HO GC DS) as [u [tr' (P1 & P2 & P3 & P4 & P5 & P6)]].
+  rewrite P1 in H. simpl in H. inversion H; subst t tr oc; clear H.
+  split; [|split; [|split; [|split]]].
+  - change (allowed_run s ([OCrash] ++ tr')). apply allowed_run_app. split; simpl; auto.
+  - change (u = run s ([OCrash] ++ tr')). rewrite run_app. exact P3.
+  - rewrite P3. apply run_good; auto.
+  - exact P5.
+  - unfold GenGood. eapply kept_gen; eauto.
+Qed.
+
+(* ---- operations local to one directory ---- *)
+Definition local_fn (o : fsop) : list fobj -> list fobj :=
+  match o with
+  | FCreate _ f => fl_create f
+  | FWrite _ f x => fl_write f x
+  | FWriteAt _ f off x => fl_writeat f off x
+  | FSyncFile _ f => fl_syncfile f
+  | FSyncDir _ => fl_syncdir
+  | _ => fun l => l
+  end.
+
+Definition local_to (d : dname) (o : fsop) : Prop :=
+  match o with
+  | FCreate d' _ | FWrite d' _ _ | FWriteAt d' _ _ _ | FSyncFile d' _ | FSyncDir d' => d' = d
+  | _ => False
+  end.
+
+Definition apply_local (ops : list fsop) (fl : list fobj) : list fobj :=
+  fold_left (fun acc o => local_fn o acc) ops fl.
+
+Lemma in_dir_ext : forall d g g' l, (forall x, g x = g' x) -> in_dir d g l = in_dir d g' l.
+Proof. intros. unfold in_dir. apply map_ext. intros o. rewrite H. reflexivity. Qed.
+
+Lemma in_dir_id : forall d l, in_dir d (fun x => x) l = l.
+Proof.
+  intros. unfold in_dir. rewrite <- (map_id l) at 2. apply map_ext. intros [v dn fl]. simpl.
+  destruct (d_is v d); reflexivity.
+Qed.
+
+Lemma in_dir_in_dir : forall d g1 g2 l, in_dir d g2 (in_dir d g1 l) = in_dir d (fun x => g2 (g1 x)) l.
+Proof.
+  intros. unfold in_dir. rewrite map_map. apply map_ext. intros o. destruct (d_is (d_vn o) d) eqn:E; simpl; rewrite E; reflexivity.
+Qed.
+
+Lemma has_dir_in_dir : forall n d g l, has_dir n (in_dir d g l) = has_dir n l.
+Proof.
+  intros n d g l. unfold has_dir, in_dir. induction l as [|o r IH]; simpl; auto. rewrite IH. f_equal.
+  destruct (d_is (d_vn o) d); reflexivity.
+Qed.
+
+Lemma exec_local : forall ops l r d,
+  has_dir d l = true -> Forall (local_to d) ops ->
+  exec (mkS l r) (map OFs ops) = (mkS (in_dir d (apply_local ops) l) r, map OFs ops, true).
+Proof.
+  induction ops as [|o ops IH]; intros l r d HD HL.
+  - cbn [map exec]. change (apply_local []) with (fun x : list fobj => x). rewrite in_dir_id. reflexivity.
+  - inversion HL as [|? ? L1 L2]; subst.
+    assert (ST : step (mkS l r) (OFs o) = Some (mkS (in_dir d (local_fn o) l) r)).
+    { destruct o; simpl in L1; try contradiction; subst; simpl; try rewrite HD; reflexivity. }
+    cbn [map exec]. rewrite ST. rewrite (IH _ r d); auto; [|rewrite has_dir_in_dir; exact HD].
+    rewrite in_dir_in_dir. reflexivity.
+Qed.
+
+(* ---- tracking one file through local operations ---- *)
+Definition Tr (f : fname) (v w : data) (fl : list fobj) : Prop :=
+  Exists (fun x => f_vn x = Some f) fl /\
+  Forall (fun x => f_vn x = Some f -> f_vd x = v /\ f_dd x = w) fl.
+
+(* the durable name f belongs to the live node only, and it has it *)
+Definition Db (f : fname) (fl : list fobj) : Prop :=
+  Exists (fun x => f_vn x = Some f /\ f_dn x = Some f) fl /\
+  Forall (fun x => f_dn x = Some f -> f_vn x = Some f) fl.
+
+Lemma Tr_create : forall f fl, Tr f [] [] (fl_create f fl).
+Proof.
+  intros f fl. unfold fl_create. split.
+  - apply Exists_cons_hd. reflexivity.
+  - constructor; [simpl; auto|]. apply Forall_filter_w. rewrite Forall_map_iff. rewrite Forall_forall.
+    intros x _ V. unfold f_unbind in V. destruct (f_is (f_vn x) f) eqn:E; simpl in V; [discriminate|].
+    apply f_is_neq in E. contradiction.
+Qed.
+
+Lemma Tr_vd : forall f v w (g : data -> data) fl,
+  Tr f v w fl ->
+  Tr f (g v) w (map (fun o => if f_is (f_vn o) f then mkF (f_vn o) (f_dn o) (g (f_vd o)) (f_dd o) else o) fl).
+Proof.
+  intros f v w g fl [E F]. split.
+  - rewrite Exists_map_iff. rewrite Exists_exists in *. destruct E as [x [Hx V]]. exists x. split; auto.
+    destruct (f_is (f_vn x) f); auto.
+  - rewrite Forall_map_iff. eapply Forall_impl_in; [exact F|]. intros x _ P.
+    destruct (f_is (f_vn x) f) eqn:E1; simpl.
+    + intros V. destruct (P V) as [-> ->]. auto.
+    + intros V. apply f_is_neq in E1. contradiction.
+Qed.
+
+Lemma Tr_syncfile : forall f v w fl, Tr f v w fl -> Tr f v v (fl_syncfile f fl).
+Proof.
+  intros f v w fl [E F]. unfold fl_syncfile. split.
+  - rewrite Exists_map_iff. rewrite Exists_exists in *. destruct E as [x [Hx V]]. exists x. split; auto.
+    destruct (f_is (f_vn x) f); auto.
+  - rewrite Forall_map_iff. eapply Forall_impl_in; [exact F|]. intros x _ P.
+    destruct (f_is (f_vn x) f) eqn:E1; simpl.
+    + intros V. destruct (P V) as [-> _]. auto.
+    + intros V. apply f_is_neq in E1. contradiction.
+Qed.
+
+Lemma Tr_syncdir : forall f v w fl, Tr f v w fl -> Tr f v w (fl_syncdir fl) /\ Db f (fl_syncdir fl).
+Proof.
+  intros f v w fl [E F]. unfold fl_syncdir. split; [split|split].
+  - apply Exists_filter_s. rewrite Exists_map_iff. rewrite Exists_exists in *. destruct E as [x [Hx V]].
+    exists x. split; auto. simpl. split; auto. unfold f_alive. simpl. rewrite V. reflexivity.
+  - apply Forall_filter_w. rewrite Forall_map_iff. eapply Forall_impl_in; [exact F|]. intros x _ P. simpl. exact P.
+  - apply Exists_filter_s. rewrite Exists_map_iff. rewrite Exists_exists in *. destruct E as [x [Hx V]].
+    exists x. split; auto. simpl. split; auto. unfold f_alive. simpl. rewrite V. reflexivity.
+  - apply Forall_filter_w. rewrite Forall_map_iff. rewrite Forall_forall. intros x _. simpl. auto.
+Qed.
+
+(* maps that keep both names keep Db *)
+Lemma Db_names : forall f (h : fobj -> fobj) fl,
+  (forall x, f_vn (h x) = f_vn x /\ f_dn (h x) = f_dn x) -> Db f fl -> Db f (map h fl).
+Proof.
+  intros f h fl H [E F]. split.
+  - rewrite Exists_map_iff. rewrite Exists_exists in *. destruct E as [x [Hx [V D]]]. exists x.
+    destruct (H x) as [-> ->]. auto.
+  - rewrite Forall_map_iff. eapply Forall_impl_in; [exact F|]. intros x _ P. destruct (H x) as [-> ->]. exact P.
+Qed.
+
+Lemma Db_vd : forall f (p : fobj -> bool) (g : data -> data) fl,
+  Db f fl -> Db f (map (fun o => if p o then mkF (f_vn o) (f_dn o) (g (f_vd o)) (f_dd o) else o) fl).
+Proof. intros. apply Db_names; auto. intros x. destruct (p x); auto. Qed.
+
+Lemma Db_syncfile : forall f n fl, Db f fl -> Db f (fl_syncfile n fl).
+Proof. intros. unfold fl_syncfile. apply Db_names; auto. intros x. destruct (f_is (f_vn x) n); auto. Qed.
+
+Lemma gen_ok_of_Tr : forall i v fl,
+  Tr (FSnap i) v v fl -> Db (FSnap i) fl -> valid_snap v = true -> gen_ok i fl.
+Proof.
+  intros i v fl [E F] [DE DF] VS. split; [|split].
+  - rewrite Exists_exists in *. destruct DE as [x [Hx [_ D]]]. eauto.
+  - exact E.
+  - rewrite Forall_forall in *. intros x Hx [A|A].
+    + destruct (F x Hx A) as [_ ->]. exact VS.
+    + destruct (F x Hx (DF x Hx A)) as [_ ->]. exact VS.
+Qed.
+
+Lemma cG_of_Tr : forall i fl,
+  Tr FFlag (flag_data i) (flag_data i) fl -> Db FFlag fl -> Forall (cG i) fl.
+Proof.
+  intros i fl [E F] [DE DF]. rewrite Forall_forall in *. intros x Hx. split.
+  - intros [A|A]; [apply (F x Hx A) | apply (F x Hx (DF x Hx A))].
+  - intros A. apply (F x Hx A).
+Qed.
+
+(* ---- frame: operations on another name keep gen_ok ---- *)
+Lemma gen_ok_map : forall i h l,
+  gen_ok i l ->
+  (forall f, In f l -> f_dn f = Some (FSnap i) -> f_dn (h f) = Some (FSnap i)) ->
+  (forall f, In f l -> f_vn f = Some (FSnap i) -> f_vn (h f) = Some (FSnap i)) ->
+  (forall f, In f l -> cF i f -> cF i (h f)) ->
+  gen_ok i (map h l).
+Proof.
+  intros i h l (Ed & Ev & F) H1 H2 H3. unfold gen_ok.
+  rewrite !Exists_map_iff, !Forall_map_iff. repeat split.
+  - rewrite Exists_exists in *. destruct Ed as [f [Hf P]]. exists f. auto.
+  - rewrite Exists_exists in *. destruct Ev as [f [Hf P]]. exists f. auto.
+  - eapply Forall_impl_in; [exact F | auto].
+Qed.
+
+Lemma gen_ok_filter_alive : forall i l, gen_ok i l -> gen_ok i (filter f_alive l).
+Proof.
+  intros i l (Ed & Ev & F). repeat split.
+  - apply Exists_filter_s. rewrite Exists_exists in *. destruct Ed as [f [Hf P]]. exists f. repeat split; auto.
+    unfold f_alive. rewrite P. simpl. apply orb_true_r.
+  - apply Exists_filter_s. rewrite Exists_exists in *. destruct Ev as [f [Hf P]]. exists f. repeat split; auto.
+    unfold f_alive. rewrite P. reflexivity.
+  - apply Forall_filter_w; exact F.
+Qed.
+
+Lemma gen_ok_create : forall i n l, n <> FSnap i -> gen_ok i l -> gen_ok i (fl_create n l).
+Proof.
+  intros i n l NE H. unfold fl_create.
+  assert (G : gen_ok i (filter f_alive (map (f_unbind n) l))).
+  { apply gen_ok_filter_alive. apply gen_ok_map; auto.
+    - intros f _ E. rewrite unbind_dn. exact E.
+    - intros f _ E. apply unbind_other_vn; auto.
+    - intros f _. apply cF_unbind. }
+  destruct G as (Ed & Ev & F). repeat split.
+  - apply Exists_cons_tl; exact Ed.
+  - apply Exists_cons_tl; exact Ev.
+  - constructor; auto. intros [A|A]; simpl in A; [congruence|discriminate].
+Qed.
+
+Lemma gen_ok_vd : forall i (p : fobj -> bool) (w : data -> data) l,
+  gen_ok i l -> gen_ok i (map (fun o => if p o then mkF (f_vn o) (f_dn o) (w (f_vd o)) (f_dd o) else o) l).
+Proof. intros i p w l H. apply gen_ok_map; auto; intros f _; destruct (p f); simpl; auto. Qed.
+
+Lemma gen_ok_syncfile : forall i n l, n <> FSnap i -> Forall fK l -> gen_ok i l -> gen_ok i (fl_syncfile n l).
+Proof.
+  intros i n l NE K H. unfold fl_syncfile. apply gen_ok_map; auto.
+  - intros f _ E. destruct (f_is (f_vn f) n); simpl; auto.
+  - intros f _ E. destruct (f_is (f_vn f) n); simpl; auto.
+  - intros f Hf C. destruct (f_is (f_vn f) n) eqn:E; auto.
+    apply f_is_eq in E. unfold cF. simpl. intros [A|A]; [congruence|].
+    rewrite Forall_forall in K. destruct (K f Hf _ A) as [B|[B|[k [B _]]]]; congruence.
+Qed.
+
+Lemma gen_ok_syncdir : forall i l, gen_ok i l -> gen_ok i (fl_syncdir l).
+Proof.
+  intros i l (Ed & Ev & F). unfold fl_syncdir. apply gen_ok_filter_alive. unfold gen_ok.
+  rewrite !Exists_map_iff, !Forall_map_iff. simpl. repeat split; auto.
+  eapply Forall_impl_in; [exact F|]. intros f _ C. unfold cF in *. simpl. intros [A|A]; auto.
+Qed.
+
+Lemma fK_write : forall n d l, Forall fK l -> Forall fK (fl_write n d l).
+Proof. intros. unfold fl_write. apply (fK_vd (fun o => f_is (f_vn o) n) (fun v => v ++ d)). auto. Qed.
+Lemma fK_writeat : forall n off d l, Forall fK l -> Forall fK (fl_writeat n off d l).
+Proof. intros. unfold fl_writeat. apply (fK_vd (fun o => f_is (f_vn o) n) (overwrite off d)). auto. Qed.
+Lemma gen_ok_write : forall i n d l, gen_ok i l -> gen_ok i (fl_write n d l).
+Proof. intros. unfold fl_write. apply (gen_ok_vd i (fun o => f_is (f_vn o) n) (fun v => v ++ d)). auto. Qed.
+Lemma gen_ok_writeat : forall i n off d l, gen_ok i l -> gen_ok i (fl_writeat n off d l).
+Proof. intros. unfold fl_writeat. apply (gen_ok_vd i (fun o => f_is (f_vn o) n) (overwrite off d)). auto. Qed.
+Lemma Tr_write : forall f v w d fl, Tr f v w fl -> Tr f (v ++ d) w (fl_write f d fl).
+Proof. intros. unfold fl_write. apply (Tr_vd f v w (fun x => x ++ d)). auto. Qed.
+Lemma Tr_writeat : forall f v w off d fl, Tr f v w fl -> Tr f (overwrite off d v) w (fl_writeat f off d fl).
+Proof. intros. unfold fl_writeat. apply (Tr_vd f v w (overwrite off d)). auto. Qed.
+Lemma Db_write : forall f n d fl, Db f fl -> Db f (fl_write n d fl).
+Proof. intros. unfold fl_write. apply (Db_vd f (fun o => f_is (f_vn o) n) (fun v => v ++ d)). auto. Qed.
+Lemma Db_writeat : forall f n off d fl, Db f fl -> Db f (fl_writeat n off d fl).
+Proof. intros. unfold fl_writeat. apply (Db_vd f (fun o => f_is (f_vn o) n) (overwrite off d)). auto. Qed.
+
+(* CreateFlagFile(dir, n, i) on a directory that holds a complete snapshot file *)
+Definition flag_fn (n : fname) (i : N) (fl : list fobj) : list fobj :=
+  fl_syncdir (fl_syncfile n (fl_write n [i] (fl_write n [T_HASH] (fl_create n fl)))).
+
+Lemma flag_fn_gen_ok : forall n i j fl, n <> FSnap j -> Forall fK fl -> gen_ok j fl -> gen_ok j (flag_fn n i fl).
+Proof.
+  intros n i j fl NE K H. unfold flag_fn. apply gen_ok_syncdir. apply gen_ok_syncfile; auto.
+  - apply fK_write. apply fK_write. apply fK_create. exact K.
+  - apply gen_ok_write. apply gen_ok_write. apply gen_ok_create; auto.
+Qed.
+
+Lemma flag_fn_fK : forall n i fl, Forall fK (flag_fn n i fl).
+Proof. intros. apply fK_syncdir. Qed.
+
+Lemma flag_fn_cG : forall i fl, Forall (cG i) (flag_fn FFlag i fl).
+Proof.
+  intros i fl. unfold flag_fn.
+  assert (T : Tr FFlag (flag_data i) (flag_data i) (fl_syncfile FFlag (fl_write FFlag [i] (fl_write FFlag [T_HASH] (fl_create FFlag fl))))).
+  { apply Tr_syncfile with (w := []).
+    apply (Tr_write FFlag [T_HASH] [] [i]).
+    apply (Tr_write FFlag [] [] [T_HASH]). apply Tr_create. }
+  destruct (Tr_syncdir _ _ _ _ T) as [T2 D]. apply cG_of_Tr; auto.
+Qed.
+
+Lemma apply_local_flag : forall d n i fl, apply_local
+  [FCreate d n; FWrite d n [T_HASH]; FWrite d n [i]; FSyncFile d n; FSyncDir d] fl = flag_fn n i fl.
+Proof. reflexivity. Qed.
+
+Lemma exec_app : forall a b s,
+  exec s (a ++ b) =
+  let '(s1, tr1, ok1) := exec s a in
+  if ok1 then let '(u, tr2, ok2) := exec s1 b in (u, tr1 ++ tr2, ok2) else (s1, tr1, false).
+Proof.
+  induction a as [|o r IH]; intros b s.
+  - simpl. destruct (exec s b) as [[u tr] ok]. reflexivity.
+  - cbn [app exec]. destruct (step s o) as [t|]; [|reflexivity]. rewrite IH.
+    destruct (exec t r) as [[s1 tr1] ok1]. destruct ok1; [|reflexivity].
+    destruct (exec s1 b) as [[u tr2] ok2]. reflexivity.
+Qed.
+
+Lemma mkdir_sync_in : forall d l o,
+  In o (fs_syncroot (fs_mkdir d l)) ->
+  d_vn o = Some d \/ exists o0, In o0 l /\ o = mkD (d_vn o0) (d_vn o0) (d_files o0).
+Proof.
+  intros d l o H. unfold fs_syncroot in H. apply filter_In in H. destruct H as [H _].
+  apply in_map_iff in H. destruct H as [x [<- Hx]]. unfold fs_mkdir in Hx. destruct (has_dir d l).
+  - right. exists x. auto.
+  - destruct Hx as [<-|Hx]; [left; reflexivity|]. right. exists x. auto.
+Qed.
+
+Lemma has_dir_mkdir_sync : forall d l, has_dir d (fs_syncroot (fs_mkdir d l)) = true.
+Proof.
+  intros d l. apply has_dir_in. unfold fs_mkdir. destruct (has_dir d l) eqn:E.
+  - apply has_dir_in in E. destruct E as [o [Ho V]]. exists (mkD (d_vn o) (d_vn o) (d_files o)). split; auto.
+    unfold fs_syncroot. apply filter_In. split; [apply in_map_iff; exists o; auto|]. unfold d_alive. simpl. rewrite V. reflexivity.
+  - exists (mkD (Some d) (Some d) []). split; auto. unfold fs_syncroot. apply filter_In. split; [|reflexivity].
+    apply in_map_iff. exists (mkD (Some d) None []). split; auto. left. reflexivity.
+Qed.
+
+Definition writer_fs (d : dname) (f : fname) (body : data) : list fsop :=
+  [FCreate d f; FWrite d f [T_HDR0]; FWrite d f body; FWrite d f [T_TAIL]; FWriteAt d f 0 [T_HDR];
+   FSyncFile d f; FSyncDir d].
+
+Lemma writer_Tr : forall d f body fl,
+  let v := T_HDR :: body ++ [T_TAIL] in
+  Tr f v v (apply_local (writer_fs d f body) fl) /\ Db f (apply_local (writer_fs d f body) fl).
+Proof.
+  intros d f body fl v. unfold writer_fs, apply_local. cbn [fold_left local_fn].
+  assert (T : Tr f v v (fl_syncfile f (fl_writeat f 0 [T_HDR] (fl_write f [T_TAIL] (fl_write f body (fl_write f [T_HDR0] (fl_create f fl))))))).
+  { apply Tr_syncfile with (w := []).
+    replace v with (overwrite 0 [T_HDR] ((([] ++ [T_HDR0]) ++ body) ++ [T_TAIL])) by reflexivity.
+    apply Tr_writeat. apply Tr_write. apply Tr_write. apply Tr_write. apply Tr_create. }
+  apply Tr_syncdir. exact T.
+Qed.
+
+Lemma valid_writer : forall body, valid_snap (T_HDR :: body ++ [T_TAIL]) = true.
+Proof. intros. unfold valid_snap. rewrite last_last. reflexivity. Qed.
+
+Lemma writer_gen_ok : forall d i body fl, gen_ok i (apply_local (writer_fs d (FSnap i) body) fl).
+Proof.
+  intros. destruct (writer_Tr d (FSnap i) body fl) as [T D]. eapply gen_ok_of_Tr; eauto. apply valid_writer.
+Qed.
+
+Lemma static_local_tmp : forall d ops, is_tmp d = true -> Forall (local_to d) ops -> Forall static_ok (map OFs ops).
+Proof.
+  intros d ops T H. rewrite Forall_map_iff. eapply Forall_impl_in; [exact H|]. intros o _ L s.
+  destruct o; simpl in L; try contradiction; subst; simpl; auto; destruct d; simpl; auto; discriminate.
+Qed.
+
+Lemma static_mktemp : forall d, is_tmp d = true -> Forall static_ok (mktemp_ops d).
+Proof. intros d T. unfold mktemp_ops. repeat constructor; intros s; simpl; auto. Qed.
+
+Lemma static_rmdir_tmp : forall d, is_tmp d = true -> Forall static_ok (rmdir_ops d).
+Proof. intros d T. unfold rmdir_ops. repeat constructor; intros s; simpl; auto. destruct d; auto; discriminate. Qed.
+
+(* ---- Save ---- *)
+Lemma cmd_save : forall s i n t tr oc, J s ->
+  fin (exec s (save_ops i n)) = (t, tr, oc) -> allowed_run s tr /\ t = run s tr /\ J t.
+Proof.
+  intros [l r] i n t tr oc (G & HS & HG) H.
+  set (d := DGen i) in *. set (body := repeat T_BODY (N.to_nat n)) in *.
+  set (l1 := fs_syncroot (fs_mkdir d l)).
+  assert (E : exec (mkS l r) (save_ops i n) =
+              (mkS (in_dir d (apply_local (writer_fs d (FSnap i) body)) l1) r, save_ops i n, true)).
+  { unfold save_ops. rewrite exec_app. fold d. fold body.
+    assert (E1 : exec (mkS l r) (mktemp_ops d) = (mkS l1 r, mktemp_ops d, true)) by reflexivity.
+    rewrite E1. change (writer_ops d (FSnap i) body) with (map OFs (writer_fs d (FSnap i) body)).
+    rewrite (exec_local _ l1 r d).
+    - reflexivity.
+    - apply has_dir_mkdir_sync.
+    - repeat constructor. }
+  rewrite E in H. simpl in H. inversion H; subst t tr oc; clear H.
+  assert (A : allowed_run (mkS l r) (save_ops i n)).
+  { apply allowed_run_static. unfold save_ops. apply Forall_app. split.
+    - apply static_mktemp. reflexivity.
+    - change (writer_ops (DGen i) (FSnap i) (repeat T_BODY (N.to_nat n))) with (map OFs (writer_fs d (FSnap i) body)).
+      apply static_local_tmp with (d := d); [reflexivity | repeat constructor]. }
+  pose proof (exec_run _ _ _ _ _ E) as R.
+  split; auto. split; auto. split; [|split].
+  - rewrite R. apply run_good; auto.
+  - unfold DSynced. simpl. apply in_dir_dsynced. apply syncroot_dsynced.
+  - unfold GenGood. simpl. unfold in_dir. rewrite Forall_map_iff. rewrite Forall_forall. intros o Ho.
+    destruct (d_is (d_vn o) d) eqn:E2.
+    + apply d_is_eq in E2. simpl. intros j V. rewrite E2 in V. inversion V; subst j. apply (writer_gen_ok d).
+    + apply d_is_neq in E2. apply mkdir_sync_in in Ho. destruct Ho as [V|[o0 [Ho0 ->]]]; [contradiction|].
+      simpl. unfold GenGood in HG. simpl in HG. rewrite Forall_forall in HG. apply HG. exact Ho0.
+Qed.
+
+Lemma triple_eq : forall {A B C} (a a' : A) (b b' : B) (c c' : C),
+  (a, b, c) = (a', b', c') -> a = a' /\ b = b' /\ c = c'.
+Proof. intros. inversion H. auto. Qed.
+
+(* ---- FinalizeSnapshot ---- *)
+Lemma renamedir_gen : forall a i l, gen_files l -> gen_files (fs_renamedir a (DFinal i) l).
+Proof.
+  intros a i l H. unfold gen_files, fs_renamedir in *. apply Forall_filter_w. rewrite Forall_map_iff.
+  eapply Forall_impl_in; eauto. intros o _ P. destruct (d_is (d_vn o) a).
+  - simpl. intros j X. discriminate.
+  - unfold d_unbind. destruct (d_is (d_vn o) (DFinal i)); auto. simpl. intros j X. discriminate.
+Qed.
+
+Lemma rename_sync_witness : forall a b l o,
+  In o l -> d_vn o = Some a ->
+  In (mkD (Some b) (Some b) (d_files o)) (fs_syncroot (fs_renamedir a b l)).
+Proof.
+  intros a b l o Ho V. unfold fs_syncroot, fs_renamedir. apply filter_In. split; [|reflexivity].
+  apply in_map_iff. exists (mkD (Some b) (d_dn o) (d_files o)). split; [reflexivity|].
+  apply filter_In. split; [|reflexivity]. apply in_map_iff. exists o. split; auto.
+  apply d_is_eq in V. rewrite V. reflexivity.
+Qed.
+
+Lemma flag_fn_has_flag : forall i fl, fl_has FFlag (flag_fn FFlag i fl) = true.
+Proof.
+  intros i fl. unfold flag_fn.
+  assert (T : Tr FFlag (flag_data i) (flag_data i) (fl_syncfile FFlag (fl_write FFlag [i] (fl_write FFlag [T_HASH] (fl_create FFlag fl))))).
+  { apply Tr_syncfile with (w := []). apply (Tr_write FFlag [T_HASH] [] [i]).
+    apply (Tr_write FFlag [] [] [T_HASH]). apply Tr_create. }
+  destruct (Tr_syncdir _ _ _ _ T) as [[E _] _]. unfold fl_has. apply existsb_exists. rewrite Exists_exists in E.
+  destruct E as [x [Hx V]]. exists x. split; auto. apply f_is_eq. exact V.
+Qed.
+
+Lemma finalize_ok : forall tmp i tail s t tr oc,
+  i <> 0 -> tmp_of tmp i ->
+  (tail = [] \/ tail = [ORecord i; OFs (FRemove (DFinal i) FFlag)]) ->
+  J s -> Forall (fun o => d_vn o = Some tmp -> gen_ok i (d_files o)) (st_fs s) ->
+  finalize tmp i tail s = (t, tr, oc) -> allowed_run s tr /\ t = run s tr /\ J t.
+Proof.
+  intros tmp i tail [l r] t tr oc NZ TM TL (G & HS & HG) PRE H.
+  assert (TMP : is_tmp tmp = true) by (destruct TM as [->| ->]; reflexivity).
+  unfold finalize, finalize_pre in H.
+  destruct (has_dir tmp l) eqn:HD.
+  2:{ (* no temporary directory: the first Create fails *)
+    assert (E : exec (mkS l r) (flagfile_ops tmp FFlag i) = (mkS l r, [], false)).
+    { unfold flagfile_ops. cbn [exec step fs_step st_fs]. rewrite HD. reflexivity. }
+    rewrite E in H. simpl in H. inversion H; subst. simpl. repeat split; auto; apply G. }
+  set (g := flag_fn FFlag i). set (l1 := in_dir tmp g l).
+  assert (E : exec (mkS l r) (flagfile_ops tmp FFlag i) = (mkS l1 r, flagfile_ops tmp FFlag i, true)).
+  { change (flagfile_ops tmp FFlag i) with (map OFs [FCreate tmp FFlag; FWrite tmp FFlag [T_HASH]; FWrite tmp FFlag [i]; FSyncFile tmp FFlag; FSyncDir tmp]).
+    rewrite (exec_local _ l r tmp); auto. repeat constructor. }
+  rewrite E in H. unfold seq in H. cbn [st_fs] in H.
+  assert (A1 : allowed_run (mkS l r) (flagfile_ops tmp FFlag i)).
+  { apply allowed_run_static.
+    change (flagfile_ops tmp FFlag i) with (map OFs [FCreate tmp FFlag; FWrite tmp FFlag [T_HASH]; FWrite tmp FFlag [i]; FSyncFile tmp FFlag; FSyncDir tmp]).
+    apply static_local_tmp with (d := tmp); auto. repeat constructor. }
+  pose proof (exec_run _ _ _ _ _ E) as R1.
+  assert (G1 : Good (mkS l1 r)) by (rewrite R1; apply run_good; auto).
+  assert (S1 : Forall dsynced l1) by (apply in_dir_dsynced; exact HS).
+  destruct G as [[HI HR] HZ].
+  (* the files of the temporary directory are now those of a complete snapshot directory *)
+  assert (FG : Forall (fun o => d_vn o = Some tmp -> fgood i (d_files o)) l1).
+  { unfold l1, in_dir. rewrite Forall_map_iff. rewrite Forall_forall in *. intros o Ho.
+    destruct (d_is (d_vn o) tmp) eqn:E2; simpl.
+    - intros _. apply d_is_eq in E2. apply fgood_split. split.
+      + apply flag_fn_gen_ok; [discriminate | apply (HI o Ho) | apply PRE; auto].
+      + apply flag_fn_cG.
+    - intros V. apply d_is_neq in E2. contradiction. }
+  assert (GF1 : gen_files l1).
+  { unfold l1, in_dir, gen_files. rewrite Forall_map_iff. unfold GenGood in HG. simpl in HG. rewrite Forall_forall in *.
+    intros o Ho. destruct (d_is (d_vn o) tmp) eqn:E2; [|apply HG; auto]. apply d_is_eq in E2. simpl. intros j V.
+    assert (j = i) by (destruct TM as [T|T]; rewrite T in E2; congruence). subst j.
+    apply flag_fn_gen_ok; [discriminate | apply (HI o Ho) | apply PRE; auto]. }
+  assert (HD1 : has_dir tmp l1 = true) by (unfold l1; rewrite has_dir_in_dir; exact HD).
+  destruct (has_dir (DFinal i) l1) eqn:HF.
+  - (* out of date: the temporary directory is removed *)
+    rewrite exec_rmdir in H. cbv beta iota zeta in H. apply triple_eq in H. destruct H as (<- & <- & <-).
+    assert (A2 : allowed_run (mkS l1 r) (rmdir_ops tmp)) by (apply allowed_run_static; apply static_rmdir_tmp; auto).
+    split; [apply allowed_run_app_i; auto; rewrite <- R1; exact A2|].
+    split; [rewrite run_app, <- R1, run_rmdir; reflexivity|].
+    split; [|split].
+    + rewrite <- (run_rmdir (mkS l1 r)). apply run_good; auto.
+    + unfold DSynced. simpl. apply syncroot_dsynced.
+    + unfold GenGood. simpl. apply syncroot_gen. apply unbind_gen. exact GF1.
+  - (* rename to the final directory *)
+    set (l3 := fs_syncroot (fs_renamedir tmp (DFinal i) l1)).
+    apply has_dir_in in HD1. destruct HD1 as [w [Hw Vw]].
+    pose proof (rename_sync_witness tmp (DFinal i) l1 w Hw Vw) as WIT. fold l3 in WIT.
+    assert (WF : fl_has FFlag (d_files w) = true).
+    { unfold l1, in_dir in Hw. apply in_map_iff in Hw. destruct Hw as [w0 [<- Hw0]].
+      destruct (d_is (d_vn w0) tmp) eqn:E2; simpl.
+      - first [reflexivity | unfold g; apply flag_fn_has_flag].
+      - simpl in Vw. apply d_is_neq in E2. contradiction. }
+    assert (AR : allowed (mkS l1 r) (OFs (FRenameDir tmp (DFinal i)))).
+    { simpl. exists i. repeat split; auto. }
+    assert (HDt : has_dir tmp l1 = true) by (apply has_dir_in; eauto).
+    assert (E3 : exec (mkS l1 r) (finalize_rename tmp i) = (mkS l3 r, finalize_rename tmp i, true)).
+    { unfold finalize_rename. cbn [exec step fs_step st_fs st_rec]. rewrite HDt. reflexivity. }
+    assert (A3 : allowed_run (mkS l1 r) (finalize_rename tmp i)).
+    { unfold finalize_rename. cbn [allowed_run step fs_step st_fs st_rec]. rewrite HDt. split; auto. simpl. auto. }
+    pose proof (exec_run _ _ _ _ _ E3) as R3.
+    assert (G3 : Good (mkS l3 r)) by (rewrite R3; apply run_good; auto).
+    assert (GF3 : gen_files l3) by (apply syncroot_gen; apply renamedir_gen; exact GF1).
+    rewrite exec_app, E3 in H.
+    destruct TL as [-> | ->].
+    + cbn [exec] in H. cbv beta iota zeta in H. apply triple_eq in H. destruct H as (<- & <- & <-). rewrite app_nil_r.
+      split; [apply allowed_run_app_i; auto; rewrite <- R1; exact A3|].
+      split; [rewrite run_app, <- R1; exact R3|].
+      split; [exact G3|]. split; [unfold DSynced; simpl; apply syncroot_dsynced | exact GF3].
+    + assert (HF3 : has_file (DFinal i) FFlag l3 = true).
+      { apply has_file_in. eexists. split; [exact WIT|]. simpl. auto. }
+      set (tl := [ORecord i; OFs (FRemove (DFinal i) FFlag)]) in *.
+      set (l4 := in_dir (DFinal i) (fl_remove FFlag) l3).
+      assert (E4 : exec (mkS l3 r) tl = (mkS l4 (N.max r i), tl, true)).
+      { unfold tl. cbn [exec step fs_step st_fs st_rec]. rewrite HF3. reflexivity. }
+      assert (A4 : allowed_run (mkS l3 r) tl).
+      { unfold tl. cbn [allowed_run step fs_step st_fs st_rec]. rewrite HF3. simpl. repeat split; auto.
+        rewrite Exists_exists. eexists. split; [exact WIT|]. simpl. auto. }
+      pose proof (exec_run _ _ _ _ _ E4) as R4.
+      rewrite E4 in H. cbv beta iota zeta in H. apply triple_eq in H. destruct H as (<- & <- & <-).
+      assert (AA : allowed_run (mkS l1 r) (finalize_rename tmp i ++ tl)).
+      { apply allowed_run_app_i; auto. rewrite <- R3. exact A4. }
+      assert (RR : mkS l4 (N.max r i) = run (mkS l1 r) (finalize_rename tmp i ++ tl)).
+      { rewrite run_app, <- R3. exact R4. }
+      split; [apply allowed_run_app_i; auto; rewrite <- R1; exact AA|].
+      split; [rewrite run_app, <- R1; exact RR|].
+      split; [|split].
+      * rewrite RR. apply run_good; auto.
+      * unfold DSynced. simpl. apply in_dir_dsynced. apply syncroot_dsynced.
+      * unfold GenGood. simpl. apply in_dir_gen_other; auto. discriminate.
+Qed.
+
+Lemma seq_ok : forall s1 tr1 k t tr oc,
+  seq (s1, tr1, true) k = (t, tr, oc) -> exists tr2, k s1 = (t, tr2, oc) /\ tr = tr1 ++ tr2.
+Proof.
+  intros s1 tr1 k t tr oc H. unfold seq in H. destruct (k s1) as [[u tr2] oc2].
+  apply triple_eq in H. destruct H as (<- & <- & <-). exists tr2. auto.
+Qed.
+
+Lemma compose_ok : forall s s1 tr1 t tr2,
+  allowed_run s tr1 -> s1 = run s tr1 -> allowed_run s1 tr2 /\ t = run s1 tr2 /\ J t ->
+  allowed_run s (tr1 ++ tr2) /\ t = run s (tr1 ++ tr2) /\ J t.
+Proof.
+  intros s s1 tr1 t tr2 A R (A2 & R2 & JT). subst s1. split; [apply allowed_run_app_i; auto|].
+  split; auto. rewrite run_app. exact R2.
+Qed.
+
+(* ---- Commit ---- *)
+Lemma cmd_commit : forall s i t tr oc, i <> 0 -> J s ->
+  seq (exec s (flagfile_ops (DGen i) FMeta i)) (finalize (DGen i) i (commit_tail i)) = (t, tr, oc) ->
+  allowed_run s tr /\ t = run s tr /\ J t.
+Proof.
+  intros [l r] i t tr oc NZ (G & HS & HG) H. set (d := DGen i) in *.
+  destruct (has_dir d l) eqn:HD.
+  2:{ assert (E : exec (mkS l r) (flagfile_ops d FMeta i) = (mkS l r, [], false)).
+      { unfold flagfile_ops. cbn [exec step fs_step st_fs]. rewrite HD. reflexivity. }
+      rewrite E in H. simpl in H. inversion H; subst. simpl. repeat split; auto; apply G. }
+  set (l1 := in_dir d (flag_fn FMeta i) l).
+  assert (LO : flagfile_ops d FMeta i = map OFs [FCreate d FMeta; FWrite d FMeta [T_HASH]; FWrite d FMeta [i]; FSyncFile d FMeta; FSyncDir d]) by reflexivity.
+  assert (E : exec (mkS l r) (flagfile_ops d FMeta i) = (mkS l1 r, flagfile_ops d FMeta i, true)).
+  { rewrite LO. rewrite (exec_local _ l r d); auto. repeat constructor. }
+  assert (A1 : allowed_run (mkS l r) (flagfile_ops d FMeta i)).
+  { apply allowed_run_static. rewrite LO. apply static_local_tmp with (d := d); [reflexivity | repeat constructor]. }
+  pose proof (exec_run _ _ _ _ _ E) as R1.
+  rewrite E in H. apply seq_ok in H. destruct H as [tr2 [H ->]].
+  apply compose_ok with (s1 := mkS l1 r); auto.
+  destruct G as [[HI HR] HZ].
+  assert (GF1 : gen_files l1).
+  { unfold l1, in_dir, gen_files. rewrite Forall_map_iff. unfold GenGood in HG. simpl in HG. rewrite Forall_forall in *.
+    intros o Ho. destruct (d_is (d_vn o) d) eqn:E2; [|apply HG; auto]. apply d_is_eq in E2. simpl. intros j V.
+    assert (j = i) by (unfold d in E2; congruence). subst j.
+    apply flag_fn_gen_ok; [discriminate | apply (HI o Ho) | apply (HG o Ho); auto]. }
+  eapply finalize_ok; [exact NZ | left; reflexivity | right; apply commit_tail_order | | | exact H].
+  - split; [|split]; auto.
+    + rewrite R1. apply run_good; auto. split; [split|]; auto.
+    + unfold DSynced. simpl. apply in_dir_dsynced. exact HS.
+  - simpl. unfold gen_files in GF1. eapply Forall_impl_in; [exact GF1|]. intros o _ P V. apply P. exact V.
+Qed.
+
+(* ---- Receive ---- *)
+Definition recv_fs (i n : N) : list fsop :=
+  let d := DRecv i in let f := FSnap i in
+  if n <=? 1 then [FCreate d f; FWrite d f [T_HDR; T_TAIL]; FSyncFile d f; FSyncDir d]
+  else [FCreate d f; FWrite d f [T_HDR]; FSyncDir d;
+        FWrite d f (repeat T_BODY (N.to_nat (n - 2))); FWrite d f [T_TAIL]; FSyncFile d f].
+
+Lemma recv_ops_fs : forall i n, recv_data_ops i n = map OFs (recv_fs i n).
+Proof. intros. unfold recv_data_ops, recv_fs. destruct (n <=? 1); reflexivity. Qed.
+
+Lemma recv_local : forall i n, Forall (local_to (DRecv i)) (recv_fs i n).
+Proof. intros. unfold recv_fs. destruct (n <=? 1); repeat constructor. Qed.
+
+Lemma recv_gen_ok : forall i n fl, gen_ok i (apply_local (recv_fs i n) fl).
+Proof.
+  intros i n fl. unfold recv_fs. destruct (n <=? 1); unfold apply_local; cbn [fold_left local_fn].
+  - set (f := FSnap i).
+    assert (T : Tr f [T_HDR; T_TAIL] [T_HDR; T_TAIL] (fl_syncfile f (fl_write f [T_HDR; T_TAIL] (fl_create f fl)))).
+    { apply Tr_syncfile with (w := []). apply (Tr_write f [] [] [T_HDR; T_TAIL]). apply Tr_create. }
+    destruct (Tr_syncdir _ _ _ _ T) as [T2 D]. eapply gen_ok_of_Tr; eauto.
+  - set (f := FSnap i). set (body := repeat T_BODY (N.to_nat (n - 2))).
+    assert (T : Tr f [T_HDR] [] (fl_write f [T_HDR] (fl_create f fl))).
+    { apply (Tr_write f [] [] [T_HDR]). apply Tr_create. }
+    destruct (Tr_syncdir _ _ _ _ T) as [T2 D].
+    eapply gen_ok_of_Tr with (v := T_HDR :: body ++ [T_TAIL]).
+    + apply Tr_syncfile with (w := []).
+      apply (Tr_write f (T_HDR :: body) [] [T_TAIL]). apply (Tr_write f [T_HDR] [] body). exact T2.
+    + apply Db_syncfile. apply Db_write. apply Db_write. exact D.
+    + apply valid_writer.
+Qed.
+
+Lemma cmd_recv : forall s i n t tr oc, i <> 0 -> J s ->
+  seq (exec s (mktemp_ops (DRecv i) ++ recv_data_ops i n)) (finalize (DRecv i) i []) = (t, tr, oc) ->
+  allowed_run s tr /\ t = run s tr /\ J t.
+Proof.
+  intros [l r] i n t tr oc NZ (G & HS & HG) H. set (d := DRecv i) in *.
+  set (l1 := fs_syncroot (fs_mkdir d l)). set (l2 := in_dir d (apply_local (recv_fs i n)) l1).
+  set (ops := mktemp_ops d ++ recv_data_ops i n) in *.
+  assert (E : exec (mkS l r) ops = (mkS l2 r, ops, true)).
+  { unfold ops. rewrite exec_app.
+    assert (E1 : exec (mkS l r) (mktemp_ops d) = (mkS l1 r, mktemp_ops d, true)) by reflexivity.
+    rewrite E1. rewrite recv_ops_fs. rewrite (exec_local _ l1 r d).
+    - reflexivity.
+    - apply has_dir_mkdir_sync.
+    - apply recv_local. }
+  assert (A1 : allowed_run (mkS l r) ops).
+  { apply allowed_run_static. unfold ops. apply Forall_app. split.
+    - apply static_mktemp. reflexivity.
+    - rewrite recv_ops_fs. apply static_local_tmp with (d := d); [reflexivity | apply recv_local]. }
+  pose proof (exec_run _ _ _ _ _ E) as R1.
+  rewrite E in H. apply seq_ok in H. destruct H as [tr2 [H ->]].
+  apply compose_ok with (s1 := mkS l2 r); auto.
+  assert (GF1 : gen_files l1).
+  { unfold gen_files. rewrite Forall_forall. intros o Ho. apply mkdir_sync_in in Ho.
+    destruct Ho as [V|[o0 [Ho0 ->]]].
+    - intros j X. unfold d in V. congruence.
+    - simpl. unfold GenGood in HG. simpl in HG. rewrite Forall_forall in HG. apply HG. exact Ho0. }
+  eapply finalize_ok; [exact NZ | right; reflexivity | left; reflexivity | | | exact H].
+  - split; [|split].
+    + rewrite R1. apply run_good; auto.
+    + unfold DSynced. simpl. apply in_dir_dsynced. apply syncroot_dsynced.
+    + unfold GenGood. simpl. apply in_dir_gen_other; auto. intros j. discriminate.
+  - simpl. unfold l2, in_dir. rewrite Forall_map_iff. rewrite Forall_forall. intros o Ho.
+    destruct (d_is (d_vn o) d) eqn:E2; simpl.
+    + intros _. apply recv_gen_ok.
+    + intros V. apply d_is_neq in E2. contradiction.
+Qed.
+
+(* ---- Shrink ---- *)
+Lemma read_file_has_dir : forall d f l x, read_file d f l = Some x -> has_dir d l = true.
+Proof.
+  intros d f l x H. rewrite read_file_hd in H. destruct (flat_map _ l) as [|y ys] eqn:E; [discriminate|].
+  assert (I : In y (y :: ys)) by (left; reflexivity). rewrite <- E in I. apply in_flat_map in I.
+  destruct I as [o [Ho I]]. destruct (d_is (d_vn o) d) eqn:E2; [|contradiction].
+  apply has_dir_in. exists o. split; auto. apply d_is_eq. exact E2.
+Qed.
+
+Lemma shrink_ops_split : forall i, shrink_ops i =
+  map OFs (writer_fs (DFinal i) (FShrunk i) [T_EMPTY]) ++
+  [OFs (FRenameFile (DFinal i) (FShrunk i) (FSnap i)); OFs (FSyncDir (DFinal i))].
+Proof. reflexivity. Qed.
+
+Lemma cmd_shrink : forall s i t tr oc, J s ->
+  (if st_rec s <? i then (s, [], Done)
+   else match read_file (DFinal i) (FSnap i) (st_fs s) with
+        | Some d => if valid_snap d then fin (exec s (shrink_ops i)) else (s, [], Panicked)
+        | None => (s, [], Failed)
+        end) = (t, tr, oc) ->
+  allowed_run s tr /\ t = run s tr /\ J t.
+Proof.
+  intros [l r] i t tr oc (G & HS & HG) H.
+  assert (TRIV : forall oc', (mkS l r, @nil op, oc') = (t, tr, oc) -> allowed_run (mkS l r) tr /\ t = run (mkS l r) tr /\ J t).
+  { intros oc' X. inversion X; subst. simpl. repeat split; auto; apply G. }
+  cbn [st_rec st_fs] in H. destruct (r <? i); [eapply TRIV; eauto|].
+  destruct (read_file (DFinal i) (FSnap i) l) as [x|] eqn:RF; [|eapply TRIV; eauto].
+  destruct (valid_snap x); [|eapply TRIV; eauto].
+  set (d := DFinal i) in *. set (sh := FShrunk i) in *.
+  pose proof (read_file_has_dir _ _ _ _ RF) as HD.
+  set (wf := writer_fs d sh [T_EMPTY]). set (l1 := in_dir d (apply_local wf) l).
+  assert (LOC : Forall (local_to d) wf) by (repeat constructor).
+  assert (E1 : exec (mkS l r) (map OFs wf) = (mkS l1 r, map OFs wf, true)) by (apply exec_local; auto).
+  assert (A1 : allowed_run (mkS l r) (map OFs wf)).
+  { apply allowed_run_static. rewrite Forall_map_iff. repeat constructor; intros s; simpl; auto. }
+  pose proof (exec_run _ _ _ _ _ E1) as R1.
+  assert (HD1 : has_dir d l1 = true) by (unfold l1; rewrite has_dir_in_dir; exact HD).
+  (* every directory named d now holds a complete, durable shrunk file *)
+  assert (TRK : Forall (fun o => d_vn o = Some d ->
+                  Exists (fun f => f_vn f = Some sh) (d_files o) /\
+                  Forall (fun f => f_vn f = Some sh -> valid_snap (f_dd f) = true) (d_files o)) l1).
+  { unfold l1, in_dir. rewrite Forall_map_iff. rewrite Forall_forall. intros o Ho.
+    destruct (d_is (d_vn o) d) eqn:E2; simpl.
+    - intros _. destruct (writer_Tr d sh [T_EMPTY] (d_files o)) as [[EX FA] _]. split; auto.
+      eapply Forall_impl_in; [exact FA|]. intros f _ P V. destruct (P V) as [_ ->]. apply valid_writer.
+    - intros V. apply d_is_neq in E2. contradiction. }
+  assert (HF1 : has_file d sh l1 = true).
+  { apply has_dir_in in HD1. destruct HD1 as [o [Ho V]]. apply has_file_in. exists o. repeat split; auto.
+    rewrite Forall_forall in TRK. destruct (TRK o Ho V) as [EX _]. unfold fl_has. apply existsb_exists.
+    rewrite Exists_exists in EX. destruct EX as [f [Hf P]]. exists f. split; auto. apply f_is_eq. exact P. }
+  set (tl := [OFs (FRenameFile d sh (FSnap i)); OFs (FSyncDir d)]).
+  set (l2 := in_dir d fl_syncdir (in_dir d (fl_rename sh (FSnap i)) l1)).
+  assert (HD2 : has_dir d (in_dir d (fl_rename sh (FSnap i)) l1) = true) by (rewrite has_dir_in_dir; exact HD1).
+  assert (E2 : exec (mkS l1 r) tl = (mkS l2 r, tl, true)).
+  { unfold tl. cbn [exec step fs_step st_fs st_rec]. rewrite HF1. cbn [st_fs st_rec]. rewrite HD2. reflexivity. }
+  assert (A2 : allowed_run (mkS l1 r) tl).
+  { unfold tl. cbn [allowed_run step fs_step st_fs st_rec]. rewrite HF1. cbn [st_fs st_rec]. rewrite HD2.
+    split; [|simpl; auto]. simpl. exists i. repeat split; auto. }
+  pose proof (exec_run _ _ _ _ _ E2) as R2.
+  rewrite shrink_ops_split in H. fold d sh wf in H. rewrite exec_app, E1 in H. fold tl in H. rewrite E2 in H.
+  cbv beta iota zeta in H. unfold fin in H. apply triple_eq in H. destruct H as (<- & <- & <-).
+  apply compose_ok with (s1 := mkS l1 r); auto. split; auto. split; auto. split; [|split].
+  - rewrite R2. apply run_good; auto. rewrite R1. apply run_good; auto.
+  - unfold DSynced. simpl. unfold l2, l1. repeat apply in_dir_dsynced. exact HS.
+  - unfold GenGood. simpl. unfold l2, l1. repeat (apply in_dir_gen_other; [discriminate|]). exact HG.
+Qed.
+
+(* ---- every command ---- *)
+Lemma cmd_ok : forall ord s c t tr oc, ord_ok ord -> J s ->
+  do_cmd ord s c = (t, tr, oc) -> allowed_run s tr /\ t = run s tr /\ J t.
+Proof.
+  intros ord s c t tr oc HO HJ H.
+  assert (TRIV : forall oc', (s, @nil op, oc') = (t, tr, oc) -> allowed_run s tr /\ t = run s tr /\ J t).
+  { intros oc' X. inversion X; subst. simpl. auto. }
+  destruct c as [i n | i | i n | i | i | i | | ]; cbn [do_cmd] in H.
+  - destruct (i =? 0) eqn:E; [eapply TRIV; eauto|]. eapply cmd_save; eauto.
+  - destruct (i =? 0) eqn:E; [eapply TRIV; eauto|]. apply N.eqb_neq in E. eapply cmd_commit; eauto.
+  - destruct (i =? 0) eqn:E; [eapply TRIV; eauto|]. apply N.eqb_neq in E. eapply cmd_recv; eauto.
+  - eapply cmd_apply; eauto.
+  - eapply cmd_shrink; eauto.
+  - eapply cmd_compact; eauto.
+  - eapply cmd_restart; eauto.
+  - eapply cmd_crash; eauto.
+Qed.
+
+Lemma J_init : J init.
+Proof. split; [apply good_init|]. split; constructor. Qed.
+
+Lemma cmds_ok : forall ord cs s t tr, ord_ok ord -> J s ->
+  do_cmds ord s cs = (t, tr) -> allowed_run s tr /\ t = run s tr /\ J t.
+Proof.
+  intros ord cs. induction cs as [|c r IH]; intros s t tr HO HJ H; simpl in H.
+  - inversion H; subst. simpl. auto.
+  - destruct (do_cmd ord s c) as [[s1 tr1] oc] eqn:E1. destruct (do_cmds ord s1 r) as [u tr2] eqn:E2.
+    inversion H; subst t tr; clear H.
+    destruct (cmd_ok _ _ _ _ _ _ HO HJ E1) as (A1 & R1 & J1).
+    destruct (IH _ _ _ HO J1 E2) as (A2 & R2 & J2).
+    split; [apply allowed_run_app_i; auto; rewrite <- R1; exact A2|].
+    split; auto. rewrite run_app, <- R1. exact R2.
+Qed.
+
+(* ---------------------------------------------------------------------- *)
+(* the property, over every command sequence and every crash point *)
+
+Lemma trace_allowed : forall ord cs, ord_ok ord -> allowed_run init (snd (do_cmds ord init cs)).
+Proof.
+  intros ord cs HO. destruct (do_cmds ord init cs) as [t tr] eqn:E. simpl.
+  destruct (cmds_ok ord cs init t tr HO J_init E) as (A & _ & _). exact A.
+Qed.
+
+Lemma recorded_implies_complete_proved : forall ord cs k,
+  ord_ok ord ->
+  let s := run init (firstn k (snd (do_cmds ord init cs))) in
+  st_rec s <> 0 -> durable_complete s (st_rec s).
+Proof. intros ord cs k HO. apply guarded_recorded_implies_complete. apply trace_allowed. exact HO. Qed.
+
+Lemma cleanup_yields_only_complete_proved : forall ord cs k,
+  ord_ok ord ->
+  let s := run init (firstn k (snd (do_cmds ord init cs))) in
+  exists u tr, process_orphans ord (run s [OCrash]) = (u, tr, true) /\ cleanb u = true /\ st_rec u = st_rec s.
+Proof. intros ord cs k HO. apply guarded_cleanup; auto. apply trace_allowed. exact HO. Qed.
+
+(* ---------------------------------------------------------------------- *)
+(* flag removal and the record *)
+
+Lemma po_flag_removal_recorded : forall n s ops j,
+  po_one n s = Some ops -> In (OFs (FRemove (DFinal j) FFlag)) ops -> st_rec s = j /\ j <> 0.
+Proof.
+  intros n s ops j H I. destruct n as [i|i|i|k]; simpl in H.
+  - destruct (negb (has_dir (DFinal i) (st_fs s))); [discriminate|].
+    destruct (has_file (DFinal i) FFlag (st_fs s)).
+    + destruct (read_file (DFinal i) FFlag (st_fs s)) as [d|]; [|discriminate].
+      destruct (flag_index d) as [j'|] eqn:FI; [|discriminate].
+      destruct ((st_rec s =? 0) || negb (st_rec s =? j')) eqn:RM.
+      * inversion H; subst ops. simpl in I. destruct I as [X|[X|[]]]; discriminate.
+      * inversion H; subst ops. destruct I as [X|[]]. inversion X; subst j'.
+        apply orb_false_iff in RM. destruct RM as [R1 R2]. apply N.eqb_neq in R1.
+        apply negb_false_iff in R2. apply N.eqb_eq in R2. split; congruence.
+    + destruct ((st_rec s =? 0) || negb (i =? st_rec s)); inversion H; subst ops; simpl in I.
+      * destruct I as [X|[X|[]]]; discriminate.
+      * contradiction.
+  - inversion H; subst ops. simpl in I. destruct I as [X|[X|[]]]; discriminate.
+  - inversion H; subst ops. simpl in I. destruct I as [X|[X|[]]]; discriminate.
+  - inversion H; subst ops. contradiction.
+Qed.
+
+Lemma flag_removed_only_after_record_proved :
+  (forall i, commit_tail i = [ORecord i; OFs (FRemove (DFinal i) FFlag)]) /\
+  (forall i, apply_ops i = [ORecord i; OFs (FRemove (DFinal i) FFlag)]) /\
+  (forall n s ops j, po_one n s = Some ops -> In (OFs (FRemove (DFinal j) FFlag)) ops -> st_rec s = j /\ j <> 0).
+Proof. split; [exact commit_tail_order|]. split; [exact apply_ops_order | exact po_flag_removal_recorded]. Qed.
+
+(* ---------------------------------------------------------------------- *)
+(* a local save and an incoming snapshot of the same index: the second one
+   to finalize gets ErrSnapshotOutOfDate, removes its own temporary directory
+   and touches nothing else *)
+
+Lemma has_dir_rm_sync : forall d l, has_dir d (fs_syncroot (fs_removeall d l)) = false.
+Proof.
+  intros d l. destruct (has_dir d _) eqn:E; auto. apply has_dir_in in E. destruct E as [o [Ho V]].
+  unfold fs_syncroot, fs_removeall in Ho. apply filter_In in Ho. destruct Ho as [Ho AL].
+  apply in_map_iff in Ho. destruct Ho as [x [<- Hx]]. apply filter_In in Hx. destruct Hx as [Hx _].
+  apply in_map_iff in Hx. destruct Hx as [y [<- _]]. simpl in V. unfold d_unbind in V.
+  destruct (d_is (d_vn y) d) eqn:E2; simpl in V; [discriminate|]. apply d_is_neq in E2. contradiction.
+Qed.
+
+Lemma finalize_loser : forall tmp i tail s,
+  has_dir tmp (st_fs s) = true -> has_dir (DFinal i) (st_fs s) = true ->
+  exists t, finalize tmp i tail s = (t, flagfile_ops tmp FFlag i ++ rmdir_ops tmp, OutOfDate) /\
+            has_dir tmp (st_fs t) = false /\ st_rec t = st_rec s.
+Proof.
+  intros tmp i tail [l r] HT HF. simpl in *. unfold finalize, finalize_pre.
+  set (l1 := in_dir tmp (flag_fn FFlag i) l).
+  assert (E : exec (mkS l r) (flagfile_ops tmp FFlag i) = (mkS l1 r, flagfile_ops tmp FFlag i, true)).
+  { change (flagfile_ops tmp FFlag i) with (map OFs [FCreate tmp FFlag; FWrite tmp FFlag [T_HASH]; FWrite tmp FFlag [i]; FSyncFile tmp FFlag; FSyncDir tmp]).
+    rewrite (exec_local _ l r tmp); auto. repeat constructor. }
+  rewrite E. unfold seq. cbn [st_fs]. unfold l1 at 1. rewrite has_dir_in_dir, HF. rewrite exec_rmdir.
+  eexists. split; [reflexivity|]. simpl. split; auto. apply has_dir_rm_sync.
+Qed.
+
+Lemma finalize_winner : forall tmp i tail s t tr oc,
+  has_dir tmp (st_fs s) = true -> has_dir (DFinal i) (st_fs s) = false ->
+  finalize tmp i tail s = (t, tr, oc) ->
+  exists rest, tr = flagfile_ops tmp FFlag i ++ OFs (FRenameDir tmp (DFinal i)) :: OFs FSyncRoot :: rest /\
+               oc <> OutOfDate.
+Proof.
+  intros tmp i tail [l r] t tr oc HT HF H. simpl in *. unfold finalize, finalize_pre in H.
+  set (l1 := in_dir tmp (flag_fn FFlag i) l) in *.
+  assert (E : exec (mkS l r) (flagfile_ops tmp FFlag i) = (mkS l1 r, flagfile_ops tmp FFlag i, true)).
+  { change (flagfile_ops tmp FFlag i) with (map OFs [FCreate tmp FFlag; FWrite tmp FFlag [T_HASH]; FWrite tmp FFlag [i]; FSyncFile tmp FFlag; FSyncDir tmp]).
+    rewrite (exec_local _ l r tmp); auto. repeat constructor. }
+  rewrite E in H. unfold seq in H. cbn [st_fs] in H. unfold l1 in H at 1. rewrite has_dir_in_dir, HF in H.
+  fold l1 in H. unfold finalize_rename in H. cbn [app exec step fs_step st_fs st_rec] in H.
+  assert (HD1 : has_dir tmp l1 = true) by (unfold l1; rewrite has_dir_in_dir; exact HT).
+  rewrite HD1 in H. cbn [st_fs st_rec] in H.
+  destruct (exec _ tail) as [[u tr2] ok2]. cbv beta iota zeta in H. unfold fin in H.
+  apply triple_eq in H. destruct H as (<- & <- & <-). exists tr2. split; auto. destruct ok2; discriminate.
+Qed.
